@@ -945,18 +945,19 @@ Record Own (h : list (bid * conn)) (hl : list conn) (hp : list bid) (s : pool) :
   own_open : forall c, sumZ (fun b => zocc c (keys b)) s.(blocks) + zocc c (limbo s) + zocc c hl <= zocc c s.(g_open);
   own_nodup : NoDup s.(g_open);
   own_fresh : forall c, In c s.(g_open) -> (c < s.(next_conn))%N;
-  own_held : forall c, zocc c (map fst s.(g_held)) <= sumZ (fun b => zocc c (inuse_keys b)) s.(blocks);
+  own_held : forall c, zocc c (map fst s.(g_held)) = sumZ (fun b => zocc c (inuse_keys b)) s.(blocks);
   own_ids : NoDup (map b_id s.(blocks));
   own_dbs : NoDup (map b_db s.(blocks));
   own_bidfresh : forall b, In b s.(blocks) -> (snd b.(b_id) < s.(next_bid))%N;
-  own_pend : forall j, npipe j s + zoccB j hp <= sumZ (at_id j b_pending) s.(blocks) }.
+  own_pend : forall j, npipe j s + zoccB j hp <= sumZ (at_id j b_pending) s.(blocks);
+  own_err : s.(err) = false }.   (* no assertion of the real code has fired *)
 
 (* dropping things from the hands is always allowed (connections become orphans) *)
 Lemma Own_weaken h hl hp h' hl' hp' s :
   (forall p, zoccP p h' <= zoccP p h) -> (forall c, zocc c hl' <= zocc c hl) ->
   (forall j, zoccB j hp' <= zoccB j hp) -> Own h hl hp s -> Own h' hl' hp' s.
 Proof.
-  intros H1 H2 H3 [o1 o2 o3 o4 o5 o6 o7 o8 o10]. split; auto.
+  intros H1 H2 H3 [o1 o2 o3 o4 o5 o6 o7 o8 o10 o11]. split; auto.
   - intros j c. specialize (o1 j c). specialize (H1 (j, c)). lia.
   - intros c. specialize (o2 c). specialize (H2 c). lia.
   - intros j. specialize (o10 j). specialize (H3 j). lia.
@@ -966,11 +967,11 @@ Qed.
 Definition sameO (s s' : pool) : Prop :=
   s'.(blocks) = s.(blocks) /\ s'.(ready) = s.(ready) /\ s'.(infl_conn) = s.(infl_conn) /\
   s'.(infl_disc) = s.(infl_disc) /\ s'.(g_open) = s.(g_open) /\ s'.(g_held) = s.(g_held) /\
-  s'.(next_conn) = s.(next_conn) /\ s'.(next_bid) = s.(next_bid).
+  s'.(next_conn) = s.(next_conn) /\ s'.(next_bid) = s.(next_bid) /\ s'.(err) = s.(err).
 Lemma Own_same h hl hp s s' : sameO s s' -> Own h hl hp s -> Own h hl hp s'.
 Proof.
-  intros (e1 & e2 & e3 & e4 & e5 & e6 & e7 & e8) [o1 o2 o3 o4 o5 o6 o7 o8 o10].
-  split; unfold limbo, npipe in *; rewrite ?e1, ?e2, ?e3, ?e4, ?e5, ?e6, ?e7, ?e8; auto.
+  intros (e1 & e2 & e3 & e4 & e5 & e6 & e7 & e8 & e9) [o1 o2 o3 o4 o5 o6 o7 o8 o10 o11].
+  split; unfold limbo, npipe in *; rewrite ?e1, ?e2, ?e3, ?e4, ?e5, ?e6, ?e7, ?e8, ?e9; auto.
 Qed.
 Ltac sameO_tac := unfold sameO; cbn; repeat split; reflexivity.
 
@@ -994,7 +995,7 @@ Lemma Own_upd_gen h hl hp h' hl' hp' s i b' :
   (forall b, find_bid i s.(blocks) = Some b ->
      (forall c, zoccP (i, c) h' - zoccP (i, c) h <= slack c b' - slack c b) /\
      (forall c, zocc c (keys b') + zocc c hl' <= zocc c (keys b) + zocc c hl) /\
-     (forall c, zocc c (inuse_keys b) <= zocc c (inuse_keys b')) /\
+     (forall c, zocc c (inuse_keys b') = zocc c (inuse_keys b)) /\
      zoccB i hp' - zoccB i hp <= b'.(b_pending) - b.(b_pending)) ->
   (forall j, j <> i -> (forall c, zoccP (j, c) h' <= zoccP (j, c) h) /\ zoccB j hp' <= zoccB j hp) ->
   (find_bid i s.(blocks) = None ->
@@ -1005,7 +1006,7 @@ Proof.
   intros O Eid Hl Hoth Hnone.
   destruct (find_bid i (blocks s)) as [b|] eqn:Ef.
   - destruct (Hl b eq_refl) as (L1 & L2 & L3 & L5). clear Hl Hnone.
-    destruct O as [o1 o2 o3 o4 o5 o6 o7 o8 o10].
+    destruct O as [o1 o2 o3 o4 o5 o6 o7 o8 o10 o11].
     assert (Eb : b_id b = i) by (eapply find_bid_id; eauto).
     assert (Ef' : find_bid (b_id b') (blocks s) = Some b) by (rewrite Eid; exact Ef).
     split; unfold limbo, npipe, upd in *; cbn [blocks ready infl_conn infl_disc g_open g_held next_conn next_bid set_blocks].
@@ -1025,6 +1026,7 @@ Proof.
       destruct (bid_eqb j i) eqn:E.
       * apply bid_eqb_eq in E; subst j. lia.
       * apply bid_eqb_neq in E. destruct (Hoth j E) as [_ Hj]. lia.
+    + exact o11.
   - destruct (Hnone eq_refl) as (W1 & W2 & W3).
     eapply Own_weaken; [exact W1|exact W2|exact W3|].
     eapply Own_same; [|exact O]. unfold sameO, upd. cbn. rewrite upd_blk_none; [repeat split; reflexivity|].
@@ -1049,7 +1051,7 @@ Lemma Own_append h hl hp h' hl' hp' s ks :
   (forall j, sumK (kont_pipe j) ks + zoccB j hp' <= zoccB j hp) ->
   Own h' hl' hp' (set_ready (s.(ready) ++ ks) s).
 Proof.
-  intros [o1 o2 o3 o4 o5 o6 o7 o8 o10] H1 H2 H3.
+  intros [o1 o2 o3 o4 o5 o6 o7 o8 o10 o11] H1 H2 H3.
   split; unfold limbo, npipe in *; cbn [blocks ready infl_conn infl_disc g_open g_held next_conn next_bid set_ready]; auto.
   - intros j c. unfold kres in *. rewrite flat_map_app, zoccP_app. specialize (o1 j c). specialize (H1 (j, c)). lia.
   - intros c. rewrite flat_map_app, !zocc_app. specialize (o2 c). specialize (H2 c). rewrite zocc_app in o2. lia.
@@ -1061,7 +1063,7 @@ Lemma sumZ_perm w l1 l2 : Permutation l1 l2 -> sumZ w l1 = sumZ w l2.
 Proof. induction 1; cbn [sumZ]; lia. Qed.
 Lemma Own_perm h hl hp s bs : Permutation bs s.(blocks) -> Own h hl hp s -> Own h hl hp (set_blocks bs s).
 Proof.
-  intros P [o1 o2 o3 o4 o5 o6 o7 o8 o10].
+  intros P [o1 o2 o3 o4 o5 o6 o7 o8 o10 o11].
   split; unfold limbo, npipe in *; cbn [blocks ready infl_conn infl_disc g_open g_held next_conn next_bid set_blocks]; auto.
   - intros j c. rewrite (sumZ_perm _ _ _ P). auto.
   - intros c. rewrite (sumZ_perm _ _ _ P). auto.
@@ -1204,8 +1206,6 @@ Lemma Own_set_outs h hl hp v s : Own h hl hp s -> Own h hl hp (set_outs v s).
 Proof. apply Own_same. sameO_tac. Qed.
 Lemma Own_emit h hl hp v s : Own h hl hp s -> Own h hl hp (emit v s).
 Proof. apply Own_same. sameO_tac. Qed.
-Lemma Own_fail h hl hp s : Own h hl hp s -> Own h hl hp (fail s).
-Proof. apply Own_same. sameO_tac. Qed.
 
 (* ------------------------------------------------------------------ liveness of a block id *)
 Definition live (i : bid) (s : pool) : Prop := find_bid i s.(blocks) <> None.
@@ -1279,4 +1279,1244 @@ Proof.
   - intros q. cbn [kres flat_map kont_res app]. rewrite !zoccP_cons, zoccP_nil. lia.
   - intros c0. cbn. rewrite zocc_nil. lia.
   - intros j. cbn. lia.
+Qed.
+
+(* Z versions of the association-list facts *)
+Lemma zkeys_aremove c (cs : list (N * bool)) v x : alookup c cs = Some v ->
+  zocc x (map fst (aremove c cs)) = zocc x (map fst cs) - (if Ndec c x then 1 else 0).
+Proof. intros H. pose proof (keys_aremove _ _ _ x H). unfold zocc. destruct (Ndec c x); lia. Qed.
+Lemma zinuse_aset_true c cs x : alookup c cs = Some false ->
+  zocc x (inuse_l (aset c true cs)) = (if Ndec c x then 1 else 0) + zocc x (inuse_l cs).
+Proof. intros H. pose proof (inuse_aset_true _ _ x H). unfold zocc. destruct (Ndec c x); lia. Qed.
+Lemma zinuse_aset_false c cs x : alookup c cs = Some true ->
+  zocc x (inuse_l (aset c false cs)) = zocc x (inuse_l cs) - (if Ndec c x then 1 else 0).
+Proof. intros H. pose proof (inuse_aset_false _ _ x H). unfold zocc. destruct (Ndec c x); lia. Qed.
+
+(* facts about a connection that is in the hand *)
+Lemma hand_block h hl hp i c s :
+  Own ((i, c) :: h) hl hp s ->
+  exists b, find_bid i s.(blocks) = Some b /\ In b s.(blocks) /\ b.(b_id) = i /\
+            alookup c b.(b_conns) = Some false /\ zocc c b.(b_stack) = 0 /\ zocc c (keys b) = 1.
+Proof.
+  intros O. pose proof (own_blk _ _ _ _ O i c) as B. rewrite zoccP_hand_same in B.
+  destruct (Ndec c c) as [_|n]; [|contradiction].
+  pose proof (zoccP_nonneg (i, c) (kres (ready s))). pose proof (zoccP_nonneg (i, c) h).
+  destruct (find_bid i (blocks s)) as [b|] eqn:Ef.
+  - assert (Hb : In b (blocks s)) by (eapply find_bid_In; eauto).
+    assert (Eb : b_id b = i) by (eapply find_bid_id; eauto).
+    rewrite (sumZ_at_unique i (slack c) _ b (own_ids _ _ _ _ O) Hb Eb) in B.
+    exists b. repeat split; auto.
+    all: pose proof (own_open _ _ _ _ O c) as Op;
+      assert (K1 : zocc c (keys b) <= sumZ (fun b => zocc c (keys b)) (blocks s))
+        by (apply (sumZ_In_le (fun b => zocc c (keys b))); [intros; apply zocc_nonneg|exact Hb]);
+      assert (G1 : zocc c (g_open s) <= 1)
+        by (unfold zocc; pose proof (proj1 (occ_NoDup Ndec _) (own_nodup _ _ _ _ O) c); lia);
+      pose proof (zocc_nonneg c (limbo s)); pose proof (zocc_nonneg c hl);
+      pose proof (zocc_nonneg c (b_stack b)); pose proof (zocc_nonneg c (inuse_keys b));
+      pose proof (zocc_nonneg c (wres b)); rewrite slack_unfold in B.
+    + apply alookup_keys; unfold keys, inuse_keys, zocc in *; lia.
+    + lia.
+    + lia.
+  - exfalso. rewrite sumZ_at_none in B; [lia|]. apply find_bid_none. exact Ef.
+Qed.
+
+(* BasePool._schedule_transfer *)
+Lemma Own_sched_transfer h hl hp f c t s :
+  live t s -> Own ((f, c) :: h) hl hp s -> Own h hl hp (sched_transfer f c t s).
+Proof.
+  intros L O. unfold sched_transfer.
+  destruct (hand_block _ _ _ _ _ _ O) as (b0 & Ef0 & _ & _ & El & _).
+  rewrite <- (get_blk_live _ _ _ Ef0) in El. rewrite El.
+  set (s1 := upd (set_b_conns (aremove c (b_conns (get_blk f s))) (get_blk f s)) s).
+  assert (O1 : Own h (c :: hl) hp s1).
+  { subst s1. eapply Own_upd_gen; [exact O|cbn; apply get_blk_id| | |].
+    - intros b Ef. rewrite (get_blk_live _ _ _ Ef) in *. split; [|repeat split; side].
+      + intros c0. rewrite zoccP_hand_same, !slack_unfold. unfold keys, inuse_keys, wres. bsimp.
+        rewrite (zkeys_aremove _ _ _ c0 El), (inuse_aremove_false _ _ El). lia.
+      + rewrite (zkeys_aremove _ _ _ c0 El), zocc_cons. destruct (Ndec c c0); lia.
+      + rewrite (inuse_aremove_false _ _ El). lia.
+    - intros j Hj. split; [|lia]. intros c0. rewrite zoccP_hand_other; [lia|exact Hj].
+    - intros Ef. rewrite (get_blk_stale _ _ Ef) in El. discriminate. }
+  assert (L1 : live t s1) by (apply live_upd, L).
+  set (s2 := upd _ s1).
+  assert (O2 : Own h (c :: hl) (t :: hp) s2) by (apply Own_pending_inc; assumption).
+  set (s3 := if starving s2 then _ else s2).
+  assert (O3 : Own h (c :: hl) (t :: hp) s3).
+  { subst s3. destruct (starving s2); [|exact O2]. apply Own_perm; [|exact O2].
+    etransitivity; apply move_end_perm. }
+  unfold push. eapply Own_append; [exact O3| | |].
+  - intros p. cbn. rewrite zoccP_nil. lia.
+  - intros c0. cbn [flat_map kont_limbo app]. rewrite !zocc_cons, zocc_nil. lia.
+  - intros j. cbn [sumK kont_pipe]. rewrite zoccB_cons. lia.
+Qed.
+
+(* ------------------------------------------------------------------ functions that keep the set of blocks *)
+Definition same_ids (s s' : pool) : Prop := Permutation (map b_id s'.(blocks)) (map b_id s.(blocks)).
+Lemma live_iff_In j s : live j s <-> In j (map b_id s.(blocks)).
+Proof.
+  unfold live. split.
+  - intros H. destruct (find_bid j (blocks s)) as [b|] eqn:E; [|contradiction].
+    rewrite <- (find_bid_id _ _ _ E). apply in_map. eapply find_bid_In; eauto.
+  - intros H. apply in_map_iff in H as (b & <- & Hb). apply find_bid_In_live. exact Hb.
+Qed.
+Lemma same_ids_live s s' j : same_ids s s' -> live j s -> live j s'.
+Proof. unfold same_ids. rewrite !live_iff_In. intros P H. eapply Permutation_in; [symmetry; exact P|exact H]. Qed.
+Lemma same_ids_refl s : same_ids s s. Proof. unfold same_ids. reflexivity. Qed.
+Lemma same_ids_trans s1 s2 s3 : same_ids s1 s2 -> same_ids s2 s3 -> same_ids s1 s3.
+Proof. unfold same_ids. intros H1 H2. etransitivity; eauto. Qed.
+Lemma si_blocks_eq s0 s s' : s'.(blocks) = s.(blocks) -> same_ids s0 s -> same_ids s0 s'.
+Proof. unfold same_ids. intros ->. auto. Qed.
+Lemma si_upd s0 b s : same_ids s0 s -> same_ids s0 (upd b s).
+Proof. unfold same_ids, upd. cbn. rewrite map_id_upd. auto. Qed.
+Lemma si_perm s0 bs s : Permutation bs s.(blocks) -> same_ids s0 s -> same_ids s0 (set_blocks bs s).
+Proof. unfold same_ids. cbn. intros P H. etransitivity; [apply Permutation_map; exact P|exact H]. Qed.
+Lemma si_set_cur s0 v s : same_ids s0 s -> same_ids s0 (set_cur v s).
+Proof. unfold same_ids. cbn. auto. Qed.
+Lemma si_set_starving s0 v s : same_ids s0 s -> same_ids s0 (set_starving v s).
+Proof. unfold same_ids. cbn. auto. Qed.
+Lemma si_set_waitlist s0 v s : same_ids s0 s -> same_ids s0 (set_waitlist v s).
+Proof. unfold same_ids. cbn. auto. Qed.
+Lemma si_set_overq s0 v s : same_ids s0 s -> same_ids s0 (set_overq v s).
+Proof. unfold same_ids. cbn. auto. Qed.
+Lemma si_set_nacq s0 v s : same_ids s0 s -> same_ids s0 (set_nacq v s).
+Proof. unfold same_ids. cbn. auto. Qed.
+Lemma si_set_tick_armed s0 v s : same_ids s0 s -> same_ids s0 (set_tick_armed v s).
+Proof. unfold same_ids. cbn. auto. Qed.
+Lemma si_set_gc_reqs s0 v s : same_ids s0 s -> same_ids s0 (set_gc_reqs v s).
+Proof. unfold same_ids. cbn. auto. Qed.
+Lemma si_set_gc_timers s0 v s : same_ids s0 s -> same_ids s0 (set_gc_timers v s).
+Proof. unfold same_ids. cbn. auto. Qed.
+Lemma si_set_gtasks s0 v s : same_ids s0 s -> same_ids s0 (set_gtasks v s).
+Proof. unfold same_ids. cbn. auto. Qed.
+Lemma si_set_outs s0 v s : same_ids s0 s -> same_ids s0 (set_outs v s).
+Proof. unfold same_ids. cbn. auto. Qed.
+Lemma si_set_g_held s0 v s : same_ids s0 s -> same_ids s0 (set_g_held v s).
+Proof. unfold same_ids. cbn. auto. Qed.
+Lemma si_set_ready s0 v s : same_ids s0 s -> same_ids s0 (set_ready v s).
+Proof. unfold same_ids. cbn. auto. Qed.
+Lemma si_emit s0 v s : same_ids s0 s -> same_ids s0 (emit v s).
+Proof. unfold same_ids. cbn. auto. Qed.
+Lemma si_push s0 v s : same_ids s0 s -> same_ids s0 (push v s).
+Proof. unfold same_ids. cbn. auto. Qed.
+Lemma si_fail s0 s : same_ids s0 s -> same_ids s0 (fail s).
+Proof. unfold same_ids. cbn. auto. Qed.
+
+Lemma si_wakeup_next s0 i s : same_ids s0 s -> same_ids s0 (wakeup_next i s).
+Proof. intros H. unfold wakeup_next. destruct (b_waiters _); [exact H|]. apply si_push, si_upd, H. Qed.
+Lemma si_block_release s0 i c s : same_ids s0 s -> same_ids s0 (block_release i c s).
+Proof. intros H. unfold block_release. apply si_wakeup_next, si_upd, H. Qed.
+Lemma si_try_steal s0 i s r s' : try_steal i s = (r, s') -> same_ids s0 s -> same_ids s0 s'.
+Proof. unfold try_steal. destruct (b_stack _); intros E H; inversion E; subst; [exact H|apply si_upd, H]. Qed.
+Lemma si_sched_new_conn s0 i s : same_ids s0 s -> same_ids s0 (sched_new_conn i s).
+Proof.
+  intros H. unfold sched_new_conn. apply si_push.
+  match goal with |- same_ids _ (if ?x then _ else _) => destruct x end.
+  - apply si_perm; [apply move_end_perm|]. apply si_set_cur, si_upd, H.
+  - apply si_set_cur, si_upd, H.
+Qed.
+Lemma si_sched_transfer s0 f c t s : same_ids s0 s -> same_ids s0 (sched_transfer f c t s).
+Proof.
+  intros H. unfold sched_transfer. destruct (alookup _ _) as [[|]|]; try (apply si_fail; exact H).
+  apply si_push.
+  match goal with |- same_ids _ (if ?x then _ else _) => destruct x end.
+  - apply si_perm; [etransitivity; apply move_end_perm|]. apply si_upd, si_upd, H.
+  - apply si_upd, si_upd, H.
+Qed.
+Lemma si_sched_discard s0 i c p br s : same_ids s0 s -> same_ids s0 (sched_discard i c p br s).
+Proof. intros H. unfold sched_discard. apply si_push, H. Qed.
+Lemma si_find_most_starving s0 s s' r : find_most_starving s = (s', r) -> same_ids s0 s -> same_ids s0 s'.
+Proof.
+  unfold find_most_starving. destruct (wl_pop _ _) as [wl o]. intros E H.
+  destruct o; [|destruct (starve_revive _ _ _)]; inversion E; subst; apply si_set_waitlist; exact H.
+Qed.
+Lemma si_maybe_free s0 f c s s' r : maybe_free f c s = (s', r) -> same_ids s0 s -> same_ids s0 s'.
+Proof.
+  unfold maybe_free. destruct (find_most_starving s) as [s1 to] eqn:E. intros E2 H.
+  assert (H1 : same_ids s0 s1) by (eapply si_find_most_starving; eauto).
+  destruct to as [j|]; [destruct (bid_eqb j f)|]; inversion E2; subst; try exact H1.
+  apply si_sched_transfer, H1.
+Qed.
+Lemma si_release_unused s0 i c s : same_ids s0 s -> same_ids s0 (release_unused i c s).
+Proof.
+  intros H. unfold release_unused.
+  match goal with |- same_ids _ (if ?x then _ else _) => destruct x end;
+    repeat first [apply si_set_gc_timers | apply si_set_gc_reqs]; apply si_block_release, H.
+Qed.
+
+(* what _find_most_starving_block returns is a block of the pool *)
+Lemma wl_pop_live bs wl wl' i : wl_pop bs wl = (wl', Some i) -> find_bid i bs <> None.
+Proof.
+  induction wl as [|j r IH]; cbn [wl_pop]; [discriminate|].
+  destruct (find_bid j bs) as [b|] eqn:E; [|exact IH].
+  destruct (_ && _); [|exact IH]. intros H; inversion H; subst. rewrite E. discriminate.
+Qed.
+Lemma starve_revive_In bs : forall mx best i,
+  starve_revive bs mx best = Some i -> best = Some i \/ In i (map b_id bs).
+Proof.
+  induction bs as [|b r IH]; intros mx best i; cbn [starve_revive map In]; [auto|].
+  destruct (_ && _); intros H; apply IH in H as [H|H]; auto. inversion H; auto.
+Qed.
+Lemma starve_redist_In bs : forall mx best i,
+  starve_redist bs mx best = Some i -> best = Some i \/ In i (map b_id bs).
+Proof.
+  induction bs as [|b r IH]; intros mx best i; cbn [starve_redist map In]; [auto|].
+  destruct (_ && _); intros H; apply IH in H as [H|H]; auto. inversion H; auto.
+Qed.
+Lemma find_most_starving_live s s' i : find_most_starving s = (s', Some i) -> live i s'.
+Proof.
+  unfold find_most_starving. destruct (wl_pop _ _) as [wl o] eqn:Ew.
+  destruct o as [j|].
+  - intros E; inversion E; subst. unfold live. cbn. eapply wl_pop_live; eauto.
+  - cbn [blocks set_waitlist]. destruct (starve_revive _ _ _) as [j|] eqn:Er; intros E; inversion E; subst; clear E.
+    + apply live_iff_In. cbn. apply starve_revive_In in Er as [Er|Er]; [discriminate|exact Er].
+    + apply live_iff_In. cbn. match goal with H : starve_redist _ _ _ = _ |- _ => apply starve_redist_In in H as [H|H]; [discriminate|exact H] end.
+Qed.
+
+Lemma Own_maybe_sched_tick h hl hp s : Own h hl hp s -> Own h hl hp (maybe_sched_tick s).
+Proof. intros O. unfold maybe_sched_tick. destruct (_ && _); [apply Own_set_tick_armed|]; exact O. Qed.
+Lemma Own_find_most_starving h hl hp s s' r : find_most_starving s = (s', r) -> Own h hl hp s -> Own h hl hp s'.
+Proof.
+  unfold find_most_starving. destruct (wl_pop _ _) as [wl o]. intros E O.
+  destruct o; [|destruct (starve_revive _ _ _)]; inversion E; subst; apply Own_set_waitlist, O.
+Qed.
+(* Pool._maybe_free_into_starving_blocks: true = the connection in the hand was transferred *)
+Lemma Own_maybe_free h hl hp f c s s' r :
+  maybe_free f c s = (s', r) -> Own ((f, c) :: h) hl hp s ->
+  if r then Own h hl hp s' else Own ((f, c) :: h) hl hp s'.
+Proof.
+  unfold maybe_free. destruct (find_most_starving s) as [s1 to] eqn:E. intros E2 O.
+  assert (O1 : Own ((f, c) :: h) hl hp s1) by (eapply Own_find_most_starving; eauto).
+  destruct to as [j|]; [destruct (bid_eqb j f)|]; inversion E2; subst; try exact O1.
+  apply Own_sched_transfer; [|exact O1]. eapply find_most_starving_live; eauto.
+Qed.
+Lemma Own_release_unused h hl hp i c s : Own ((i, c) :: h) hl hp s -> Own h hl hp (release_unused i c s).
+Proof.
+  intros O. unfold release_unused.
+  match goal with |- Own _ _ _ (if ?x then _ else _) => destruct x end;
+    repeat first [apply Own_set_gc_timers | apply Own_set_gc_reqs]; apply Own_block_release, O.
+Qed.
+Lemma Own_try_steal_conn o f l : forall h hl hp s s' r,
+  live f s -> try_steal_conn o f l s = (s', r) -> Own h hl hp s -> Own h hl hp s'.
+Proof.
+  induction l as [|i l IH]; intros h hl hp s s' r L E O; cbn [try_steal_conn] in E.
+  - inversion E; subst; exact O.
+  - destruct (bid_eqb i f || negb (should_free o i s)); [eapply IH; eauto|].
+    destruct (try_steal i s) as [[c|] s1] eqn:Es; [|eapply IH; eauto].
+    inversion E; subst. apply Own_sched_transfer; [|eapply Own_try_steal; eauto].
+    eapply same_ids_live; [eapply si_try_steal; [eauto|apply same_ids_refl]|exact L].
+Qed.
+Lemma si_try_steal_conn o f l : forall s0 s s' r, try_steal_conn o f l s = (s', r) -> same_ids s0 s -> same_ids s0 s'.
+Proof.
+  induction l as [|i l IH]; intros s0 s s' r E H; cbn [try_steal_conn] in E.
+  - inversion E; subst; exact H.
+  - destruct (bid_eqb i f || negb (should_free o i s)); [eapply IH; eauto|].
+    destruct (try_steal i s) as [[c|] s1] eqn:Es; [|eapply IH; eauto].
+    inversion E; subst. apply si_sched_transfer. eapply si_try_steal; eauto.
+Qed.
+Lemma Own_try_shrink o i fuel : forall h hl hp s, Own h hl hp s -> Own h hl hp (try_shrink o i fuel s).
+Proof.
+  induction fuel as [|f IH]; intros h hl hp s O; cbn [try_shrink]; [exact O|].
+  destruct (_ && _); [|exact O].
+  destruct (try_steal i s) as [[c|] s1] eqn:Es; [|exact O].
+  destruct (find_most_starving s1) as [s2 to] eqn:Ef.
+  apply IH.
+  assert (O2 : Own ((i, c) :: h) hl hp s2) by (eapply Own_find_most_starving; [eauto|]; eapply Own_try_steal; eauto).
+  destruct to as [j|]; [apply Own_sched_transfer; [eapply find_most_starving_live; eauto|exact O2]|apply Own_sched_discard, O2].
+Qed.
+Lemma si_try_shrink o i fuel : forall s0 s, same_ids s0 s -> same_ids s0 (try_shrink o i fuel s).
+Proof.
+  induction fuel as [|f IH]; intros s0 s H; cbn [try_shrink]; [exact H|].
+  destruct (_ && _); [|exact H].
+  destruct (try_steal i s) as [[c|] s1] eqn:Es; [|exact H].
+  destruct (find_most_starving s1) as [s2 to] eqn:Ef.
+  apply IH. assert (H2 : same_ids s0 s2) by (eapply si_find_most_starving; [eauto|]; eapply si_try_steal; eauto).
+  destruct to; [apply si_sched_transfer|apply si_sched_discard]; exact H2.
+Qed.
+Lemma Own_grow i fuel : forall h hl hp s, live i s -> Own h hl hp s -> Own h hl hp (grow i fuel s).
+Proof.
+  induction fuel as [|f IH]; intros h hl hp s L O; cbn [grow]; [exact O|].
+  destruct (_ && _); [|exact O].
+  apply IH; [eapply same_ids_live; [apply si_sched_new_conn, same_ids_refl|exact L]|apply Own_sched_new_conn; assumption].
+Qed.
+Lemma si_grow i fuel : forall s0 s, same_ids s0 s -> same_ids s0 (grow i fuel s).
+Proof.
+  induction fuel as [|f IH]; intros s0 s H; cbn [grow]; [exact H|].
+  destruct (_ && _); [|exact H]. apply IH, si_sched_new_conn, H.
+Qed.
+Lemma Own_rebalance_one o i h hl hp s : live i s -> Own h hl hp s -> Own h hl hp (rebalance_one o i s).
+Proof.
+  intros L O. unfold rebalance_one.
+  destruct (_ <? _); [|destruct (_ <? _); [apply Own_grow; assumption|exact O]].
+  match goal with |- Own _ _ _ (if ?x then _ else _) => destruct x end;
+    [apply Own_set_overq|]; apply Own_try_shrink, O.
+Qed.
+Lemma si_rebalance_one o i s0 s : same_ids s0 s -> same_ids s0 (rebalance_one o i s).
+Proof.
+  intros H. unfold rebalance_one.
+  destruct (_ <? _); [|destruct (_ <? _); [apply si_grow|]; exact H].
+  match goal with |- same_ids _ (if ?x then _ else _) => destruct x end;
+    [apply si_set_overq|]; apply si_try_shrink, H.
+Qed.
+Lemma Own_rebalance_loop o l : forall h hl hp s, (forall i, In i l -> live i s) -> Own h hl hp s -> Own h hl hp (rebalance_loop o l s).
+Proof.
+  induction l as [|i l IH]; intros h hl hp s L O; cbn [rebalance_loop]; [exact O|].
+  apply IH.
+  - intros j Hj. eapply same_ids_live; [apply si_rebalance_one, same_ids_refl|]. apply L. right; exact Hj.
+  - apply Own_rebalance_one; [apply L; left; reflexivity|exact O].
+Qed.
+Lemma si_rebalance_loop o l : forall s0 s, same_ids s0 s -> same_ids s0 (rebalance_loop o l s).
+Proof. induction l; intros; cbn [rebalance_loop]; [assumption|]. apply IHl, si_rebalance_one; assumption. Qed.
+Lemma Own_rebalance o h hl hp s : Own h hl hp s -> Own h hl hp (rebalance o s).
+Proof.
+  intros O. unfold rebalance. destruct (starving s); [exact O|].
+  apply Own_set_overq, Own_rebalance_loop; [|apply Own_set_overq, O].
+  intros i Hi. apply live_iff_In. exact Hi.
+Qed.
+Lemma si_rebalance o s0 s : same_ids s0 s -> same_ids s0 (rebalance o s).
+Proof.
+  intros H. unfold rebalance. destruct (starving s); [exact H|].
+  apply si_set_overq, si_rebalance_loop, si_set_overq, H.
+Qed.
+
+(* replace block i by b' and the ghost list of lent connections at the same time *)
+Lemma Own_upd_held h hl hp h' hl' hp' s i b' held' :
+  Own h hl hp s -> b'.(b_id) = i ->
+  (forall b, find_bid i s.(blocks) = Some b ->
+     (forall c, zoccP (i, c) h' - zoccP (i, c) h <= slack c b' - slack c b) /\
+     (forall c, zocc c (keys b') + zocc c hl' <= zocc c (keys b) + zocc c hl) /\
+     (forall c, zocc c (map fst held') - zocc c (map fst s.(g_held)) = zocc c (inuse_keys b') - zocc c (inuse_keys b)) /\
+     zoccB i hp' - zoccB i hp <= b'.(b_pending) - b.(b_pending)) ->
+  (forall j, j <> i -> (forall c, zoccP (j, c) h' <= zoccP (j, c) h) /\ zoccB j hp' <= zoccB j hp) ->
+  find_bid i s.(blocks) <> None ->
+  Own h' hl' hp' (set_g_held held' (upd b' s)).
+Proof.
+  intros O Eid Hl Hoth Hlive.
+  destruct (find_bid i (blocks s)) as [b|] eqn:Ef; [|contradiction].
+  destruct (Hl b eq_refl) as (L1 & L2 & L3 & L5). clear Hl.
+  destruct O as [o1 o2 o3 o4 o5 o6 o7 o8 o10 o11].
+  assert (Eb : b_id b = i) by (eapply find_bid_id; eauto).
+  assert (Ef' : find_bid (b_id b') (blocks s) = Some b) by (rewrite Eid; exact Ef).
+  split; unfold limbo, npipe, upd in *; cbn [blocks ready infl_conn infl_disc g_open g_held next_conn next_bid set_blocks set_g_held].
+  + intros j c. rewrite (sumZ_upd _ _ _ _ Ef'). specialize (o1 j c). unfold at_id at 2 3. rewrite Eid, Eb.
+    destruct (bid_eqb j i) eqn:E.
+    * apply bid_eqb_eq in E; subst j. specialize (L1 c). lia.
+    * apply bid_eqb_neq in E. destruct (Hoth j E) as [Hj _]. specialize (Hj c). lia.
+  + intros c. rewrite (sumZ_upd _ _ _ _ Ef'). specialize (o2 c). specialize (L2 c). lia.
+  + exact o3.
+  + exact o4.
+  + intros c. rewrite (sumZ_upd _ _ _ _ Ef'). specialize (o5 c). specialize (L3 c). lia.
+  + rewrite map_id_upd. exact o6.
+  + rewrite b_db_map, map_id_upd, <- b_db_map. exact o7.
+  + intros x Hx. apply In_upd_blk in Hx as [->|Hx]; [|auto].
+    rewrite Eid, <- Eb. apply o8. eapply find_bid_In; eauto.
+  + intros j. rewrite (sumZ_upd _ _ _ _ Ef'). specialize (o10 j). unfold at_id at 2 3. rewrite Eid, Eb.
+    destruct (bid_eqb j i) eqn:E.
+    * apply bid_eqb_eq in E; subst j. lia.
+    * apply bid_eqb_neq in E. destruct (Hoth j E) as [_ Hj]. lia.
+  + exact o11.
+Qed.
+
+Lemma NoDup_map_inj {A B} (f : A -> B) l x y : NoDup (map f l) -> In x l -> In y l -> f x = f y -> x = y.
+Proof.
+  induction l as [|a l IH]; cbn [map]; intros ND Hx Hy E; [destruct Hx|].
+  inversion ND; subst. destruct Hx as [->|Hx], Hy as [->|Hy]; auto.
+  - exfalso. apply H1. rewrite E. apply in_map. exact Hy.
+  - exfalso. apply H1. rewrite <- E. apply in_map. exact Hx.
+Qed.
+
+Lemma zlen_inuse_aset_true c cs : alookup c cs = Some false -> zlen (inuse_l (aset c true cs)) = zlen (inuse_l cs) + 1.
+Proof.
+  induction cs as [|[k w] cs IH]; cbn [alookup aset]; [discriminate|].
+  destruct (c =? k)%N; intros H.
+  - inversion H; subst. unfold inuse_l. cbn [filter snd map]. rewrite zlen_cons. lia.
+  - unfold inuse_l in *. cbn [filter snd]. destruct w; cbn [map]; rewrite ?zlen_cons, (IH H); lia.
+Qed.
+
+(* tail of Pool.acquire: the connection in the hand is marked in_use and lent to task t *)
+Lemma Own_finish_acquire h hl hp i c t s :
+  Own ((i, c) :: h) hl hp s -> Own h hl hp (finish_acquire t (fst i) c s).
+Proof.
+  intros O. unfold finish_acquire.
+  assert (O1 : Own ((i, c) :: h) hl hp (set_nacq (nacq s - 1) s)) by (apply Own_set_nacq, O).
+  destruct (hand_block _ _ _ _ _ _ O1) as (bi & Ef & Hbi & Ebi & Al & St & Ky).
+  cbn [blocks set_nacq] in *.
+  assert (Edi : find_db (fst i) (blocks s) = Some bi).
+  { pose proof (find_db_unique _ _ (own_dbs _ _ _ _ O) Hbi) as F. unfold b_db in F at 1. rewrite Ebi in F. exact F. }
+  rewrite Edi, Al.
+  apply Own_emit. eapply Own_upd_held; [exact O1|bsimp; exact Ebi| | |cbn [blocks set_nacq]; congruence].
+  - cbn [blocks set_nacq g_held]. intros b Ef2. assert (b = bi) by congruence. subst b.
+    split; [|repeat split; side].
+    + intros c0. rewrite zoccP_hand_same, !slack_unfold. unfold keys, inuse_keys, wres. bsimp.
+      rewrite keys_aset, (zinuse_aset_true _ _ c0 Al). lia.
+    + rewrite keys_aset. lia.
+    + cbn [map fst]. rewrite zocc_cons, (zinuse_aset_true _ _ _ Al). lia.
+  - intros j Hj. split; [|lia]. intros c0. rewrite zoccP_hand_other; [lia|exact Hj].
+Qed.
+
+(* deque.pop(): the top of the stack moves into the hand *)
+Lemma Own_pop_top h hl hp i s r c b' :
+  split_last (get_blk i s).(b_stack) = Some (r, c) ->
+  b'.(b_id) = i -> b'.(b_conns) = (get_blk i s).(b_conns) -> b'.(b_stack) = r ->
+  wres b' = wres (get_blk i s) -> b'.(b_pending) = (get_blk i s).(b_pending) ->
+  Own h hl hp s -> Own ((i, c) :: h) hl hp (upd b' s).
+Proof.
+  intros Sl e1 e2 e3 e4 e5 O.
+  pose proof (split_last_spec (b_stack (get_blk i s))) as Sp. rewrite Sl in Sp.
+  eapply Own_upd_gen; [exact O|exact e1| | |].
+  - intros b Ef. rewrite (get_blk_live _ _ _ Ef) in *.
+    split; [|repeat split; intros; unfold keys, inuse_keys; rewrite ?e2, ?e5; lia].
+    intros c0. rewrite zoccP_hand_same, !slack_unfold. unfold keys, inuse_keys.
+    rewrite e2, e3, e4, Sp, zocc_app, zocc_cons, zocc_nil. lia.
+  - intros j Hj. split; [|lia]. intros c0. rewrite zoccP_hand_other; [lia|exact Hj].
+  - intros Ef. rewrite (get_blk_stale _ _ Ef) in Sl. discriminate.
+Qed.
+
+Lemma wres_app_acq ws t : flat_map wk_res (ws ++ [(t, WAcq)]) = flat_map wk_res ws.
+Proof. rewrite flat_map_app. cbn. rewrite app_nil_r. reflexivity. Qed.
+
+Lemma Own_block_acquire h hl hp t i first s : Own h hl hp s -> Own h hl hp (block_acquire t i first s).
+Proof.
+  intros O. unfold block_acquire. destruct (split_last _) as [[r c]|] eqn:Sl.
+  - apply Own_finish_acquire. eapply Own_pop_top; eauto; try reflexivity. bsimp. apply get_blk_id.
+  - apply Own_upd_same with (i := i); [exact O|].
+    unfold blk_same, wres. bsimp. repeat split; try reflexivity.
+    destruct first; [apply wres_app_acq|reflexivity].
+Qed.
+
+(* BasePool._get_block / _new_block *)
+Lemma Own_get_block h hl hp d s i s' :
+  get_block d s = (i, s') -> Own h hl hp s -> Own h hl hp s' /\ live i s' /\ fst i = d.
+Proof.
+  unfold get_block. destruct (find_db d (blocks s)) as [b|] eqn:Ed; intros E O; inversion E; subst; clear E.
+  - destruct (find_db_In _ _ _ Ed) as [Hb Edb]. split; [exact O|split; [|exact Edb]].
+    apply live_iff_In. apply in_map. exact Hb.
+  - set (nb := new_blk (d, next_bid s)).
+    assert (Hnone : forall b, In b (blocks s) -> b_db b <> d).
+    { intros b Hb Edb. pose proof (find_db_unique _ _ (own_dbs _ _ _ _ O) Hb) as F. rewrite Edb, Ed in F. discriminate. }
+    assert (Hid : ~ In (d, next_bid s) (map b_id (blocks s))).
+    { intros Hin. apply in_map_iff in Hin as (b & Eb & Hb). apply (Hnone b Hb). unfold b_db. rewrite Eb. reflexivity. }
+    assert (P : Permutation (if starving s then nb :: blocks s else blocks s ++ [nb]) (nb :: blocks s)).
+    { destruct (starving s); [reflexivity|]. symmetry. apply Permutation_cons_append. }
+    split; [|split; [|reflexivity]].
+    + destruct O as [o1 o2 o3 o4 o5 o6 o7 o8 o10 o11].
+      split; unfold limbo, npipe in *; cbn [blocks ready infl_conn infl_disc g_open g_held next_conn next_bid set_blocks set_next_bid]; auto.
+      * intros j c. rewrite (sumZ_perm _ _ _ P). cbn [sumZ]. unfold at_id at 1.
+        destruct (bid_eqb j (b_id nb)); [|apply o1].
+        specialize (o1 j c). rewrite slack_unfold. cbn. rewrite !zocc_nil. lia.
+      * intros c. rewrite (sumZ_perm _ _ _ P). cbn [sumZ]. specialize (o2 c). cbn. rewrite zocc_nil. lia.
+      * intros c. rewrite (sumZ_perm _ _ _ P). cbn [sumZ]. specialize (o5 c). cbn. rewrite zocc_nil. lia.
+      * eapply Permutation_NoDup; [symmetry; apply Permutation_map; exact P|]. cbn [map]. constructor; assumption.
+      * eapply Permutation_NoDup; [symmetry; apply Permutation_map; exact P|]. cbn [map]. constructor; [|assumption].
+        intros Hin. apply in_map_iff in Hin as (b & Eb & Hb). apply (Hnone b Hb). exact Eb.
+      * intros b Hb. apply (Permutation_in _ P) in Hb. destruct Hb as [<-|Hb]; [cbn; lia|].
+        specialize (o8 b Hb). lia.
+      * intros j. rewrite (sumZ_perm _ _ _ P). cbn [sumZ]. unfold at_id at 1.
+        destruct (bid_eqb j (b_id nb)); [|apply o10]. specialize (o10 j). cbn. lia.
+    + apply live_iff_In. cbn [blocks set_blocks set_next_bid].
+      eapply Permutation_in; [symmetry; apply Permutation_map; exact P|]. left. reflexivity.
+Qed.
+
+Lemma Own_acquire_start o t d h hl hp s : Own h hl hp s -> Own h hl hp (acquire_start o t d s).
+Proof.
+  intros O. unfold acquire_start.
+  destruct (get_block d _) as [i s1] eqn:Eg.
+  destruct (Own_get_block h hl hp _ _ _ _ Eg (Own_maybe_sched_tick _ _ _ _ (Own_set_nacq _ _ _ _ _ O))) as (O1 & L1 & Ed).
+  set (s2 := upd _ s1).
+  assert (O2 : Own h hl hp s2) by (apply Own_upd_same with (i := i); [exact O1|unfold blk_same; bsimp; repeat split; reflexivity]).
+  assert (L2 : live i s2) by (apply live_upd, L1).
+  match goal with |- Own _ _ _ (if ?x then _ else _) => destruct x end.
+  - apply Own_block_acquire.
+    match goal with |- Own _ _ _ (if ?x then _ else _) => destruct x end;
+      match goal with |- Own _ _ _ (if ?x then _ else _) => destruct x end;
+      try exact O2; apply Own_sched_new_conn; assumption.
+  - match goal with |- Own _ _ _ (if ?x then _ else _) => destruct x end;
+      [|match goal with |- Own _ _ _ (if ?x then _ else _) => destruct x end].
+    + destruct (try_steal_conn o i (overq s2) s2) as [s3 ok] eqn:Et.
+      assert (O3 : Own h hl hp s3) by (eapply Own_try_steal_conn; eauto).
+      apply Own_block_acquire. destruct ok; [|apply Own_set_waitlist]; exact O3.
+    + destruct (try_steal_conn o i (overq s2) s2) as [s3 ok] eqn:Et.
+      apply Own_block_acquire. eapply Own_try_steal_conn; eauto.
+    + apply Own_block_acquire, O2.
+Qed.
+
+Lemma Own_acquire_wake t i ok h hl hp s : Own h hl hp s -> Own h hl hp (acquire_wake t i ok s).
+Proof.
+  intros O. unfold acquire_wake. destruct ok.
+  - destruct (split_last _) as [[r c]|] eqn:Sl.
+    + apply Own_finish_acquire. eapply Own_pop_top; eauto; try reflexivity. bsimp. apply get_blk_id.
+    + apply Own_block_acquire. apply Own_upd_same with (i := i); [exact O|unfold blk_same; bsimp; repeat split; reflexivity].
+  - apply Own_emit, Own_set_nacq.
+    set (s2 := match b_stack (get_blk i s) with [] => s | _ :: _ => wakeup_next i s end).
+    assert (O2 : Own h hl hp s2) by (subst s2; destruct (b_stack _); [exact O|apply Own_wakeup_next, O]).
+    apply Own_upd_same with (i := i); [exact O2|unfold blk_same; bsimp; repeat split; reflexivity].
+Qed.
+
+(* BasePool._connect up to the connect callback: the promise moves into infl_conn *)
+Lemma Own_call_connect h hl hp i s : Own h hl (i :: hp) s -> Own h hl hp (call_connect i s).
+Proof.
+  intros [o1 o2 o3 o4 o5 o6 o7 o8 o10 o11]. unfold call_connect.
+  split; unfold limbo, npipe in *; cbn; auto.
+  intros j. specialize (o10 j). rewrite sumL_app. cbn [sumL snd]. rewrite zoccB_cons in o10. lia.
+Qed.
+
+(* BasePool._disconnect up to the disconnect callback *)
+Lemma Own_call_disconnect h hl hp c a s :
+  Own h (c :: hl) (match a with ADTransfer to => to :: hp | _ => hp end) s ->
+  Own h hl hp (call_disconnect c a s).
+Proof.
+  intros [o1 o2 o3 o4 o5 o6 o7 o8 o10 o11]. unfold call_disconnect.
+  split; unfold limbo, npipe in *; cbn; auto.
+  - intros c0. specialize (o2 c0). rewrite map_app, app_assoc, !zocc_app in *. cbn [map fst snd].
+    rewrite !zocc_cons, zocc_nil in *. lia.
+  - intros j. specialize (o10 j). rewrite sumL_app. cbn [sumL snd].
+    destruct a; [rewrite zoccB_cons in o10|]; lia.
+Qed.
+
+Lemma sumK_nonneg f l : (forall k, 0 <= f k) -> 0 <= sumK f l.
+Proof. intros H. induction l; cbn [sumK]; [lia|]. specialize (H a). lia. Qed.
+Lemma sumL_nonneg {A} (f : A -> Z) l : (forall k, 0 <= f k) -> 0 <= sumL f l.
+Proof. intros H. induction l; cbn [sumL]; [lia|]. specialize (H a). lia. Qed.
+Lemma b2z_nonneg b : 0 <= b2z b. Proof. destruct b; cbn; lia. Qed.
+Lemma npipe_nonneg j s : 0 <= npipe j s.
+Proof.
+  unfold npipe.
+  assert (0 <= sumK (kont_pipe j) (ready s)).
+  { apply sumK_nonneg. intros k. destruct k; cbn; try lia; try apply b2z_nonneg. destruct a; [apply b2z_nonneg|lia]. }
+  assert (0 <= sumL (fun e : N * (N * N) => b2z (bid_eqb j (snd e))) (infl_conn s)) by (apply sumL_nonneg; intros; apply b2z_nonneg).
+  assert (0 <= sumL (fun e : N * (N * after_disc) => match snd (snd e) with ADTransfer to => b2z (bid_eqb j to) | _ => 0 end) (infl_disc s)).
+  { apply sumL_nonneg. intros k. destruct (snd (snd k)); [apply b2z_nonneg|lia]. }
+  lia.
+Qed.
+(* a block that has been promised a connection exists *)
+Lemma promised_live h hl hp i s : Own h hl (i :: hp) s -> live i s.
+Proof.
+  intros O. pose proof (own_pend _ _ _ _ O i) as P. rewrite zoccB_cons, bid_eqb_refl in P. cbn [b2z] in P.
+  pose proof (npipe_nonneg i s). pose proof (zoccB_nonneg i hp).
+  unfold live. intros Ef. rewrite sumZ_at_none in P; [lia|]. apply find_bid_none. exact Ef.
+Qed.
+
+(* BasePool._connect after the callback completed (the KConnWake entry has just been popped:
+   its connection and its promise are in the hands) *)
+Lemma Own_connect_wake_ok h hl hp i c nodb s :
+  Own h (c :: hl) (i :: hp) s -> Own h hl hp (connect_wake i (Some c) nodb s).
+Proof.
+  intros O. pose proof (promised_live _ _ _ _ _ O) as L. unfold connect_wake.
+  apply Own_block_release.
+  eapply Own_upd_gen; [exact O|bsimp; apply get_blk_id| | |].
+  - intros b Ef. rewrite (get_blk_live _ _ _ Ef) in *. split; [|repeat split; side].
+    + intros c0. rewrite zoccP_hand_same, !slack_unfold. unfold keys, inuse_keys, wres. bsimp.
+      rewrite map_app, zocc_app, inuse_app_false. cbn [map fst]. rewrite zocc_cons, zocc_nil. lia.
+    + rewrite map_app, zocc_app. cbn [map fst]. rewrite !zocc_cons, zocc_nil. lia.
+    + rewrite inuse_app_false. lia.
+    + rewrite zoccB_cons, bid_eqb_refl. cbn [b2z]. lia.
+  - intros j Hj. split.
+    + intros c0. rewrite zoccP_hand_other; [lia|exact Hj].
+    + rewrite zoccB_cons. assert (E : bid_eqb j i = false) by (apply bid_eqb_neq; exact Hj). rewrite E. cbn [b2z]. lia.
+  - intros Ef. contradiction.
+Qed.
+
+Lemma Own_pending_dec h hl hp i s :
+  Own h hl (i :: hp) s ->
+  Own h hl hp (upd (set_b_pending ((get_blk i s).(b_pending) - 1) (get_blk i s)) s).
+Proof.
+  intros O. pose proof (promised_live _ _ _ _ _ O) as L.
+  eapply Own_upd_gen; [exact O|bsimp; apply get_blk_id| | |].
+  - intros b Ef. rewrite (get_blk_live _ _ _ Ef) in *. split; [|repeat split; side].
+    + intros c. rewrite !slack_unfold. unfold keys, inuse_keys, wres. bsimp. lia.
+    + rewrite zoccB_cons, bid_eqb_refl. cbn [b2z]. lia.
+  - intros j Hj. split; [intros; lia|]. rewrite zoccB_cons.
+    assert (E : bid_eqb j i = false) by (apply bid_eqb_neq; exact Hj). rewrite E. cbn [b2z]. lia.
+  - intros Ef. contradiction.
+Qed.
+
+Lemma Own_connect_wake_fail h hl hp i nodb s :
+  Own h hl (i :: hp) s -> Own h hl hp (connect_wake i None nodb s).
+Proof.
+  intros O. pose proof (promised_live _ _ _ _ _ O) as L. unfold connect_wake.
+  set (s1 := set_cur (cur s - 1) s).
+  assert (O1 : Own h hl (i :: hp) s1) by (apply Own_set_cur, O).
+  set (s2 := upd _ s1).
+  assert (O2 : Own h hl (i :: hp) s2) by (apply Own_upd_same with (i := i); [exact O1|unfold blk_same; bsimp; repeat split; reflexivity]).
+  assert (L2 : live i s2) by (apply live_upd, L).
+  match goal with |- context [if ?x then ?a else ?b] => set (s3 := if x then a else b) end.
+  assert (O3 : Own h hl (i :: hp) s3).
+  { subst s3. match goal with |- Own _ _ _ (if ?x then _ else _) => destruct x end;
+      [apply Own_abort_waiters, O2|apply Own_sched_new_conn; assumption]. }
+  apply Own_pending_dec, O3.
+Qed.
+
+(* first step of _discard_conn: the KDiscStart entry has just been popped, its connection is in the hand *)
+Lemma Own_discard_start h hl hp i c p br s :
+  Own ((i, c) :: h) hl hp s -> Own h hl hp (discard_start i c p br s).
+Proof.
+  intros O. unfold discard_start.
+  destruct (hand_block _ _ _ _ _ _ O) as (b0 & Ef0 & _ & _ & El & _).
+  rewrite <- (get_blk_live _ _ _ Ef0) in El. rewrite El.
+  apply (Own_call_disconnect h hl hp c (ADDiscard p br)).
+  eapply Own_upd_gen; [exact O|cbn; apply get_blk_id| | |].
+  - intros b Ef. rewrite (get_blk_live _ _ _ Ef) in *. split; [|repeat split; side].
+    + intros c0. rewrite zoccP_hand_same, !slack_unfold. unfold keys, inuse_keys, wres. bsimp.
+      rewrite (zkeys_aremove _ _ _ c0 El), (inuse_aremove_false _ _ El). lia.
+    + rewrite (zkeys_aremove _ _ _ c0 El), zocc_cons. destruct (Ndec c c0); lia.
+    + rewrite (inuse_aremove_false _ _ El). lia.
+  - intros j Hj. split; [|lia]. intros c0. rewrite zoccP_hand_other; [lia|exact Hj].
+  - intros Ef. rewrite (get_blk_stale _ _ Ef) in El. discriminate.
+Qed.
+
+(* after the disconnect callback completed (the KDiscWake entry has just been popped) *)
+Lemma Own_disconnect_wake h hl hp c a ok s :
+  Own h hl (match a with ADTransfer to => to :: hp | _ => hp end) s -> Own h hl hp (disconnect_wake c a ok s).
+Proof.
+  intros O. unfold disconnect_wake. destruct a as [to|[t|] br].
+  - apply Own_call_connect, Own_set_cur, Own_set_cur, O.
+  - unfold push. eapply Own_append; [apply Own_set_cur, O| | |]; intros; cbn; rewrite ?zoccP_nil, ?zocc_nil; lia.
+  - apply Own_set_cur, O.
+Qed.
+
+(* ------------------------------------------------------------------ prune_inactive_connections *)
+Lemma kres_discs i t acc : kres (map (fun c => KDiscStart i c (Some t) false) acc) = map (pair i) acc.
+Proof. induction acc; cbn; [reflexivity|]. f_equal. exact IHacc. Qed.
+Lemma limbo_discs i t acc : flat_map kont_limbo (map (fun c => KDiscStart i c (Some t) false) acc) = [].
+Proof. induction acc; cbn; auto. Qed.
+Lemma pipe_discs j i t acc : sumK (kont_pipe j) (map (fun c => KDiscStart i c (Some t) false) acc) = 0.
+Proof. induction acc; cbn; auto. Qed.
+
+Lemma Own_prune_cont t i acc h hl hp s :
+  Own (map (pair i) acc ++ h) hl hp s -> Own h hl hp (prune_cont t i acc s).
+Proof.
+  intros O. unfold prune_cont. destruct (_ && _).
+  - eapply Own_upd_gen; [exact O|bsimp; apply get_blk_id| | |].
+    + intros b Ef. rewrite (get_blk_live _ _ _ Ef) in *. split; [|repeat split; side].
+      intros c. rewrite zoccP_app, zoccP_map_pair, bid_eqb_refl, !slack_unfold. unfold keys, inuse_keys, wres. bsimp.
+      rewrite flat_map_app, zocc_app. cbn [flat_map wk_res snd]. rewrite app_nil_r, zocc_app, zocc_rev, zocc_nil. lia.
+    + intros j Hj. split; [|lia]. intros c. rewrite zoccP_app, zoccP_map_pair.
+      assert (E : bid_eqb j i = false) by (apply bid_eqb_neq; exact Hj). rewrite E. lia.
+    + intros _. repeat split; intros; try lia. rewrite zoccP_app. pose proof (zoccP_nonneg p (map (pair i) acc)). lia.
+  - destruct acc as [|a acc'].
+    + apply Own_emit. exact O.
+    + apply Own_set_gtasks. eapply Own_append; [exact O| | |].
+      * intros p. rewrite kres_discs, zoccP_app. lia.
+      * intros c. rewrite limbo_discs, zocc_nil. lia.
+      * intros j. rewrite pipe_discs. lia.
+Qed.
+
+Lemma Own_prune_start t d h hl hp s : Own h hl hp s -> Own h hl hp (prune_start t d s).
+Proof.
+  intros O. unfold prune_start. destruct (find_db d (blocks s)) as [b|] eqn:Ed; [|apply Own_emit, O].
+  destruct (find_db_In _ _ _ Ed) as [Hb _].
+  pose proof (find_bid_unique _ _ (own_ids _ _ _ _ O) Hb) as Ef.
+  apply Own_prune_cont.
+  eapply Own_upd_gen; [exact O|bsimp; reflexivity| | |].
+  - intros b0 Ef0. assert (b0 = b) by congruence. subst b0. split; [|repeat split; side].
+    intros c. rewrite zoccP_app, zoccP_map_pair, bid_eqb_refl, !slack_unfold. unfold keys, inuse_keys, wres. bsimp.
+    rewrite zocc_nil. lia.
+  - intros j Hj. split; [|lia]. intros c. rewrite zoccP_app, zoccP_map_pair.
+    assert (E : bid_eqb j (b_id b) = false) by (apply bid_eqb_neq; exact Hj). rewrite E. lia.
+  - intros Ef0. congruence.
+Qed.
+
+Lemma Own_perm_hand h h' hl hp s : (forall p, zoccP p h' = zoccP p h) -> Own h hl hp s -> Own h' hl hp s.
+Proof. intros H. apply Own_weaken; intros; try lia. rewrite H. lia. Qed.
+
+(* the KPruneWake entry has just been popped: acc is in the hand *)
+Lemma Own_prune_wake t i acc ok h hl hp s :
+  Own (map (pair i) acc ++ h) hl hp s -> Own h hl hp (prune_wake t i acc ok s).
+Proof.
+  intros O. unfold prune_wake. destruct ok.
+  - destruct (split_last _) as [[r c]|] eqn:Sl.
+    + apply Own_prune_cont.
+      eapply Own_perm_hand; [|eapply Own_pop_top; eauto; try reflexivity; bsimp; apply get_blk_id].
+      intros p. rewrite map_app, !zoccP_app. cbn [map]. rewrite !zoccP_cons, zoccP_nil, zoccP_app. lia.
+    + apply Own_prune_cont. apply Own_upd_same with (i := i); [exact O|unfold blk_same; bsimp; repeat split; reflexivity].
+  - apply Own_emit.
+    assert (O0 : Own h hl hp s).
+    { eapply Own_weaken; [| | |exact O]; intros; try lia. rewrite zoccP_app. pose proof (zoccP_nonneg p (map (pair i) acc)). lia. }
+    set (s2 := match b_stack (get_blk i s) with [] => s | _ :: _ => wakeup_next i s end).
+    assert (O2 : Own h hl hp s2) by (subst s2; destruct (b_stack _); [exact O0|apply Own_wakeup_next, O0]).
+    apply Own_upd_same with (i := i); [exact O2|unfold blk_same; bsimp; repeat split; reflexivity].
+Qed.
+
+Lemma Own_gather_cb t h hl hp s : Own h hl hp s -> Own h hl hp (gather_cb t s).
+Proof.
+  intros O. unfold gather_cb. destruct (alookup _ _); [|exact O].
+  destruct (_ <=? _); [|apply Own_set_gtasks, O].
+  unfold push. eapply Own_append; [apply Own_set_gtasks, O| | |]; intros; cbn; rewrite ?zoccP_nil, ?zocc_nil; lia.
+Qed.
+
+(* ------------------------------------------------------------------ Pool.release *)
+Lemma zocc_In c l : (1 <= zocc c l) <-> In c l.
+Proof. unfold zocc. rewrite (occ_In Ndec). lia. Qed.
+Lemma alookup_of_In {A} c (l : list (N * A)) : In c (map fst l) -> exists v, alookup c l = Some v.
+Proof.
+  induction l as [|[k v] l IH]; cbn [map fst alookup In]; [tauto|].
+  destruct (c =? k)%N eqn:E; [eauto|]. intros [->|H]; [rewrite N.eqb_refl in E; discriminate|auto].
+Qed.
+Lemma inuse_In c cs : alookup c cs = Some true -> 1 <= zocc c (inuse_l cs).
+Proof.
+  induction cs as [|[k v] cs IH]; cbn [alookup]; [discriminate|].
+  destruct (c =? k)%N eqn:E; intros H.
+  - inversion H; subst. apply N.eqb_eq in E; subst. unfold inuse_l. cbn [filter snd map fst].
+    rewrite zocc_cons. destruct (Ndec k k); [|contradiction]. pose proof (zocc_nonneg k (map fst (filter snd cs))). lia.
+  - specialize (IH H). unfold inuse_l in *. cbn [filter snd]. destruct v; cbn [map fst]; rewrite ?zocc_cons; [destruct (Ndec k c)|]; lia.
+Qed.
+
+Lemma Own_release o d c discard h hl hp s : Own h hl hp s -> Own h hl hp (release o d c discard s).
+Proof.
+  intros O. unfold release.
+  destruct (find_db d (blocks s)) as [b|] eqn:Ed; [|apply Own_emit, O].
+  destruct (alookup c (b_conns b)) as [[|]|] eqn:El; try (apply Own_emit, O).
+  destruct (find_db_In _ _ _ Ed) as [Hb _].
+  pose proof (find_bid_unique _ _ (own_ids _ _ _ _ O) Hb) as Ef.
+  remember (b_id b) as i eqn:Ei.
+  set (s1 := maybe_sched_tick _).
+  assert (O1 : Own ((i, c) :: h) hl hp s1).
+  { subst s1. apply Own_maybe_sched_tick.
+    eapply Own_upd_held; [exact O|bsimp; symmetry; exact Ei| | |rewrite Ef; discriminate].
+    - intros b0 Ef0. assert (b0 = b) by congruence. subst b0. split; [|repeat split; side].
+      + intros c0. rewrite zoccP_hand_same, !slack_unfold. unfold keys, inuse_keys, wres. bsimp.
+        rewrite keys_aset, (zinuse_aset_false _ _ c0 El). lia.
+      + rewrite keys_aset. lia.
+      + rewrite (zinuse_aset_false _ _ _ El).
+        assert (Hin : In c (map fst (g_held s))).
+        { apply zocc_In. rewrite (own_held _ _ _ _ O c).
+          pose proof (inuse_In _ _ El).
+          pose proof (sumZ_In_le (fun b => zocc c (inuse_keys b)) (blocks s) b (fun b _ => zocc_nonneg c _) Hb).
+          unfold inuse_keys in *. cbn beta in *. lia. }
+        destruct (alookup_of_In _ _ Hin) as [v Hv].
+        pose proof (proj2 (occ_aremove_fst c (g_held s) c0) v Hv) as R.
+        unfold zocc. destruct (Ndec c c0); lia.
+    - intros j Hj. split; [|lia]. intros c0. rewrite zoccP_hand_other; [lia|exact Hj]. }
+  assert (L1 : live i s1).
+  { subst s1. unfold maybe_sched_tick. destruct (_ && _); unfold live; cbn; rewrite find_bid_upd, Ef; discriminate. }
+  destruct (if should_free o i s1 then maybe_free i c s1 else (s1, false)) as [s2 moved] eqn:Em.
+  assert (O2 : if moved then Own h hl hp s2 else Own ((i, c) :: h) hl hp s2).
+  { destruct (should_free o i s1); [eapply Own_maybe_free; eauto|inversion Em; subst; exact O1]. }
+  assert (L2 : live i s2).
+  { destruct (should_free o i s1); [|inversion Em; subst; exact L1].
+    eapply same_ids_live; [eapply si_maybe_free; [eauto|apply same_ids_refl]|exact L1]. }
+  destruct moved; [exact O2|].
+  destruct discard.
+  - apply Own_sched_new_conn; [|apply Own_sched_discard, O2].
+    eapply same_ids_live; [apply si_sched_discard, same_ids_refl|exact L2].
+  - apply Own_release_unused, O2.
+Qed.
+
+(* ------------------------------------------------------------------ _tick *)
+Lemma Own_upd_same_In h hl hp s b b' : Own h hl hp s -> In b s.(blocks) -> blk_same b b' -> Own h hl hp (upd b' s).
+Proof.
+  intros O Hb Sm. pose proof (find_bid_unique _ _ (own_ids _ _ _ _ O) Hb) as Ef.
+  apply Own_upd_same with (i := b_id b); [exact O|]. rewrite (get_blk_live _ _ _ Ef). exact Sm.
+Qed.
+
+Lemma Own_tick_scan o ids : forall h hl hp s tot need drop s' a b c,
+  tick_scan o ids s tot need drop = (s', a, b, c) -> Own h hl hp s -> Own h hl hp s'.
+Proof.
+  induction ids as [|i r IH]; intros h hl hp s tot need drop s' a b c E O; cbn [tick_scan] in E.
+  - inversion E; subst; exact O.
+  - assert (O1 : Own h hl hp (upd (set_b_quota (b_nwait (get_blk i s) + b_acq (get_blk i s)) (get_blk i s)) s))
+      by (apply Own_upd_same with (i := i); [exact O|unfold blk_same; bsimp; repeat split; reflexivity]).
+    destruct (_ && _); [|destruct (_ =? _)]; eapply IH; eauto.
+Qed.
+Lemma si_tick_scan o ids : forall s0 s tot need drop s' a b c,
+  tick_scan o ids s tot need drop = (s', a, b, c) -> same_ids s0 s -> same_ids s0 s'.
+Proof.
+  induction ids as [|i r IH]; intros s0 s tot need drop s' a b c E H; cbn [tick_scan] in E.
+  - inversion E; subst; exact H.
+  - destruct (_ && _); [|destruct (_ =? _)]; eapply IH; eauto; apply si_upd, H.
+Qed.
+
+(* BasePool._drop_block *)
+Lemma Own_remove h hl hp i s :
+  count_conns (get_blk i s) = 0 -> Own h hl hp s -> Own h hl hp (set_blocks (remove_bid i s.(blocks)) s).
+Proof.
+  intros Cc O. destruct (find_bid i (blocks s)) as [b|] eqn:Ef.
+  2: { rewrite (remove_bid_none _ _ Ef). eapply Own_same; [|exact O]. sameO_tac. }
+  rewrite (get_blk_live _ _ _ Ef) in Cc.
+  assert (Hb : In b (blocks s)) by (eapply find_bid_In; eauto).
+  assert (Eb : b_id b = i) by (eapply find_bid_id; eauto).
+  pose proof (own_pend _ _ _ _ O i) as P.
+  rewrite (sumZ_at_unique i b_pending _ b (own_ids _ _ _ _ O) Hb Eb) in P.
+  pose proof (npipe_nonneg i s). pose proof (zoccB_nonneg i hp).
+  unfold count_conns in Cc. pose proof (zlen_nonneg (b_conns b)).
+  assert (Ec : b_conns b = []) by (destruct (b_conns b) as [|x l]; [reflexivity|rewrite zlen_cons in *; pose proof (zlen_nonneg l); lia]).
+  assert (Ep : b_pending b = 0) by lia.
+  assert (Ek : keys b = []) by (unfold keys; rewrite Ec; reflexivity).
+  assert (Ei : inuse_keys b = []) by (unfold inuse_keys; rewrite Ec; reflexivity).
+  pose proof (remove_bid_perm _ _ _ Ef) as Pm.
+  assert (Sm : forall w, sumZ w (remove_bid i (blocks s)) = sumZ w (blocks s) - w b)
+    by (intros w; apply sumZ_remove; exact Ef).
+  destruct O as [o1 o2 o3 o4 o5 o6 o7 o8 o10 o11].
+  split; unfold limbo, npipe in *; cbn [blocks ready infl_conn infl_disc g_open g_held next_conn next_bid set_blocks]; auto.
+  - intros j c. rewrite Sm. specialize (o1 j c). unfold at_id at 2. rewrite Eb.
+    destruct (bid_eqb j i) eqn:E; [|lia]. apply bid_eqb_eq in E; subst j.
+    rewrite (sumZ_at_unique i (slack c) _ b o6 Hb Eb) in o1.
+    rewrite (sumZ_at_unique i (slack c) _ b o6 Hb Eb).
+    rewrite slack_unfold in *. unfold keys, inuse_keys in *. rewrite Ec in *. cbn [map inuse_l filter] in *.
+    rewrite zocc_nil in *. pose proof (zocc_nonneg c (b_stack b)). pose proof (zocc_nonneg c (wres b)).
+    pose proof (zoccP_nonneg (i, c) (kres (ready s))). pose proof (zoccP_nonneg (i, c) h). lia.
+  - intros c. rewrite Sm. specialize (o2 c). cbn beta. rewrite Ek, zocc_nil. lia.
+  - intros c. rewrite Sm. specialize (o5 c). cbn beta. rewrite Ei, zocc_nil. lia.
+  - apply (Permutation_NoDup (Permutation_map b_id Pm)) in o6. inversion o6; assumption.
+  - apply (Permutation_NoDup (Permutation_map b_db Pm)) in o7. inversion o7; assumption.
+  - intros x Hx. apply o8. eapply In_remove_bid; eauto.
+  - intros j. rewrite Sm. specialize (o10 j). unfold at_id at 2. rewrite Eb.
+    destruct (bid_eqb j i) eqn:E; [|lia]. apply bid_eqb_eq in E; subst j. lia.
+Qed.
+
+Lemma Own_drop_all ids : forall h hl hp s s' r, drop_all ids s = (s', r) -> Own h hl hp s -> Own h hl hp s'.
+Proof.
+  induction ids as [|i r IH]; intros h hl hp s s' r0 E O; cbn [drop_all] in E.
+  - inversion E; subst; exact O.
+  - destruct (negb (b_nwait (get_blk i s) =? 0) || negb (count_conns (get_blk i s) =? 0) || negb (b_quota (get_blk i s) =? 0)) eqn:G;
+      [inversion E; subst; exact O|].
+    apply orb_false_iff in G as [G _]. apply orb_false_iff in G as [_ G].
+    apply negb_false_iff, Z.eqb_eq in G.
+    eapply IH; [exact E|]. apply Own_remove; assumption.
+Qed.
+
+Lemma Own_modeD_quota o ids : forall h hl hp s, Own h hl hp s -> Own h hl hp (modeD_quota o ids s).
+Proof.
+  induction ids as [|i r IH]; intros h hl hp s O; cbn [modeD_quota]; [exact O|]. apply IH.
+  assert (Q : forall q, Own h hl hp (upd (set_b_quota q (get_blk i s)) s))
+    by (intros q; apply Own_upd_same with (i := i); [exact O|unfold blk_same; bsimp; repeat split; reflexivity]).
+  assert (M : forall q, Own h hl hp (set_blocks (move_end i (upd_blk (set_b_quota q (get_blk i s)) (blocks s))) s)).
+  { intros q. exact (Own_perm h hl hp (upd (set_b_quota q (get_blk i s)) s) _ (move_end_perm i _) (Q q)). }
+  destruct (_ =? 1); [destruct (mem_n _ _)|destruct (_ <? _)]; auto.
+Qed.
+Lemma si_modeD_quota o ids : forall s0 s, same_ids s0 s -> same_ids s0 (modeD_quota o ids s).
+Proof.
+  induction ids as [|i r IH]; intros s0 s H; cbn [modeD_quota]; [exact H|]. apply IH.
+  assert (M : forall q, same_ids s0 (set_blocks (move_end i (upd_blk (set_b_quota q (get_blk i s)) (blocks s))) s)).
+  { intros q. exact (si_perm s0 _ (upd (set_b_quota q (get_blk i s)) s) (move_end_perm i _) (si_upd _ _ _ H)). }
+  destruct (_ =? 1); [destruct (mem_n _ _)|destruct (_ <? _)]; auto. apply si_upd, H.
+Qed.
+
+Lemma Own_free_loop o i fuel : forall h hl hp s s' r, free_loop o i fuel s = (s', r) -> Own h hl hp s -> Own h hl hp s'.
+Proof.
+  induction fuel as [|f IH]; intros h hl hp s s' r E O; cbn [free_loop] in E.
+  - inversion E; subst; exact O.
+  - destruct (should_free o i s); [|inversion E; subst; exact O].
+    destruct (try_steal i s) as [[c|] s1] eqn:Es; [|inversion E; subst; exact O].
+    destruct (maybe_free i c s1) as [s2 ok] eqn:Em.
+    pose proof (Own_maybe_free h hl hp _ _ _ _ _ Em (Own_try_steal _ _ _ _ _ _ _ Es O)) as O2.
+    destruct ok; [eapply IH; eauto|]. inversion E; subst. apply Own_release_unused, O2.
+Qed.
+Lemma Own_modeD_free o ids : forall h hl hp s, Own h hl hp s -> Own h hl hp (modeD_free o ids s).
+Proof.
+  induction ids as [|i r IH]; intros h hl hp s O; cbn [modeD_free]; [exact O|].
+  destruct (free_loop _ _ _ _) as [s1 stop] eqn:Ef.
+  assert (O1 : Own h hl hp s1) by (eapply Own_free_loop; eauto).
+  destruct stop; [exact O1|apply IH, O1].
+Qed.
+Lemma Own_set_quotas cq : forall h hl hp s, Own h hl hp s -> Own h hl hp (set_quotas cq s).
+Proof.
+  induction cq as [|[d q] r IH]; intros h hl hp s O; cbn [set_quotas]; [exact O|]. apply IH.
+  destruct (find_db d (blocks s)) as [b|] eqn:Ed; [|exact O].
+  destruct (find_db_In _ _ _ Ed) as [Hb _].
+  eapply Own_upd_same_In; [exact O|exact Hb|unfold blk_same; bsimp; repeat split; reflexivity].
+Qed.
+
+Lemma Own_tick o h hl hp s : Own h hl hp s -> Own h hl hp (tick o s).
+Proof.
+  intros O. unfold tick.
+  assert (O0 : Own h hl hp (maybe_sched_tick (set_tick_armed false s)))
+    by (apply Own_maybe_sched_tick, Own_set_tick_armed, O).
+  destruct (blocks _) as [|b [|b2 bs]] eqn:Eb.
+  - apply Own_set_starving, O0.
+  - eapply Own_upd_same_In; [apply Own_set_starving, O0|cbn [blocks set_starving]; rewrite Eb; left; reflexivity|].
+    unfold blk_same; bsimp; repeat split; reflexivity.
+  - destruct (tick_scan _ _ _ _ _ _) as [[[s1 tot] need] drop] eqn:Et.
+    assert (O1 : Own h hl hp s1) by (eapply Own_tick_scan; eauto).
+    destruct (drop_all _ _) as [s3 crashed] eqn:Ed.
+    assert (O3 : Own h hl hp s3) by (eapply Own_drop_all; [eauto|]; apply Own_set_starving, O1).
+    destruct crashed; [apply Own_emit, O3|].
+    match goal with |- Own _ _ _ (if ?x then _ else _) => destruct x end; [exact O3|].
+    match goal with |- Own _ _ _ (if ?x then _ else _) => destruct x end.
+    { match goal with |- Own _ _ _ (if ?x then _ else _) => destruct x end; [apply Own_rebalance|]; exact O3. }
+    match goal with |- Own _ _ _ (if ?x then _ else _) => destruct x end.
+    + match goal with |- Own _ _ _ (if ?x then _ else _) => destruct x end;
+        [apply Own_modeD_free|]; apply Own_modeD_quota, O3.
+    + match goal with |- Own _ _ _ (if ?x then _ else _) => destruct x end;
+        [apply Own_emit|apply Own_rebalance]; apply Own_set_quotas, O3.
+Qed.
+
+(* ------------------------------------------------------------------ _run_gc *)
+Lemma Own_gc_block i n : forall h hl hp s, Own h hl hp s -> Own h hl hp (gc_block i n s).
+Proof.
+  induction n as [|m IH]; intros h hl hp s O; cbn [gc_block]; [exact O|].
+  destruct (try_steal i s) as [[c|] s1] eqn:Es; [|exact O].
+  apply IH, Own_sched_discard. eapply Own_try_steal; eauto.
+Qed.
+Lemma Own_gc_all o ids : forall h hl hp s, Own h hl hp s -> Own h hl hp (gc_all o ids s).
+Proof. induction ids; intros; cbn [gc_all]; [assumption|]. apply IHids, Own_gc_block; assumption. Qed.
+Lemma Own_run_gc o h hl hp s : Own h hl hp s -> Own h hl hp (run_gc o s).
+Proof.
+  intros O. unfold run_gc.
+  destruct (starving _); [apply Own_set_gc_timers, Own_set_gc_timers, O|].
+  apply Own_gc_all. destruct (_ <? _); repeat first [apply Own_set_gc_timers | apply Own_set_gc_reqs]; exact O.
+Qed.
+
+(* ------------------------------------------------------------------ one step preserves ownership *)
+Definition OwnI (s : pool) : Prop := Own [] [] [] s.
+
+Definition kont_promise (k : kont) : list bid :=
+  match k with
+  | KConnStart i => [i]
+  | KConnWake _ i _ _ => [i]
+  | KTransStart _ _ to => [to]
+  | KDiscWake _ _ (ADTransfer to) _ => [to]
+  | _ => []
+  end.
+Lemma kont_pipe_promise j k : kont_pipe j k = zoccB j (kont_promise k).
+Proof.
+  destruct k; cbn [kont_pipe kont_promise]; rewrite ?zoccB_cons, ?zoccB_nil; try lia.
+  destruct a; rewrite ?zoccB_cons, ?zoccB_nil; lia.
+Qed.
+
+(* the loop pops the first callback: what it carried moves into the hands *)
+Lemma Own_pop s k r :
+  OwnI s -> s.(ready) = k :: r ->
+  Own (kont_res k) (kont_limbo k) (kont_promise k) (set_ready r (set_outs [] s)).
+Proof.
+  intros [o1 o2 o3 o4 o5 o6 o7 o8 o10 o11] E.
+  split; unfold limbo, npipe in *; cbn [blocks ready infl_conn infl_disc g_open g_held next_conn next_bid set_ready set_outs]; auto;
+    rewrite E in *.
+  - intros j c. specialize (o1 j c). cbn [kres flat_map] in o1. rewrite zoccP_app, zoccP_nil in o1. unfold kres. lia.
+  - intros c. specialize (o2 c). cbn [flat_map] in o2. rewrite !zocc_app, zocc_nil in o2. rewrite zocc_app. lia.
+  - intros j. specialize (o10 j). cbn [sumK] in o10. rewrite kont_pipe_promise, zoccB_nil in o10. lia.
+Qed.
+
+Lemma sumL_aremove {A} (f : N * A -> Z) k l v : alookup k l = Some v -> sumL f (aremove k l) = sumL f l - f (k, v).
+Proof.
+  induction l as [|[k' v'] l IH]; cbn [alookup aremove]; [discriminate|].
+  destruct (k =? k')%N eqn:E; intros H; cbn [sumL].
+  - inversion H; subst. apply N.eqb_eq in E; subst. lia.
+  - rewrite (IH H). lia.
+Qed.
+Lemma zocc_aremove_snd k (l : list (N * (N * after_disc))) c a x : alookup k l = Some (c, a) ->
+  zocc x (map (fun e : N * (N * after_disc) => fst (snd e)) (aremove k l)) =
+  zocc x (map (fun e : N * (N * after_disc) => fst (snd e)) l) - (if Ndec c x then 1 else 0).
+Proof.
+  induction l as [|[k' [c' a']] l IH]; cbn [alookup aremove]; [discriminate|].
+  destruct (k =? k')%N eqn:E; intros H; cbn [map fst snd].
+  - inversion H; subst. rewrite zocc_cons. lia.
+  - rewrite !zocc_cons, (IH H). lia.
+Qed.
+Lemma NoDup_remove1 c l : NoDup l -> NoDup (remove1 c l).
+Proof.
+  intros ND. apply (occ_NoDup Ndec). intros x. pose proof (proj1 (occ_NoDup Ndec l) ND x).
+  destruct (in_dec Ndec c l) as [Hin|Hn].
+  - pose proof (occ_remove1 c l x Hin). lia.
+  - assert (E : remove1 c l = l).
+    { clear -Hn. induction l as [|y l IH]; cbn [remove1]; [reflexivity|].
+      destruct (c =? y)%N eqn:E; [apply N.eqb_eq in E; subst; exfalso; apply Hn; left; reflexivity|].
+      rewrite IH; [reflexivity|]. intros H; apply Hn; right; exact H. }
+    rewrite E. lia.
+Qed.
+Lemma In_remove1 c l x : In x (remove1 c l) -> In x l.
+Proof.
+  induction l as [|y l IH]; cbn [remove1]; [tauto|].
+  destruct (c =? y)%N; cbn [In]; intros H; [right; exact H|]. destruct H; auto.
+Qed.
+Lemma zocc_remove1 c l x : In c l -> zocc x (remove1 c l) = zocc x l - (if Ndec c x then 1 else 0).
+Proof. intros H. pose proof (occ_remove1 c l x H). unfold zocc. destruct (Ndec c x); lia. Qed.
+
+Lemma Own_discs_open s : OwnI s -> discs_open s.
+Proof.
+  intros O did c a El. apply zocc_In.
+  pose proof (own_open _ _ _ _ O c) as Op. unfold limbo in Op. rewrite zocc_app, zocc_nil in Op.
+  assert (1 <= zocc c (map (fun e : N * (N * after_disc) => fst (snd e)) (infl_disc s))).
+  { clear -El. induction (infl_disc s) as [|[k [c' a']] l IH]; cbn [alookup] in El; [discriminate|].
+    cbn [map fst snd]. rewrite zocc_cons. destruct (did =? k)%N.
+    - inversion El; subst. destruct (Ndec c c); [|contradiction]. pose proof (zocc_nonneg c (map (fun e : N * (N * after_disc) => fst (snd e)) l)). lia.
+    - specialize (IH El). destruct (Ndec c' c); lia. }
+  pose proof (zocc_nonneg c (flat_map kont_limbo (ready s))).
+  assert (0 <= sumZ (fun b => zocc c (keys b)) (blocks s)) by (apply sumZ_nonneg; intros; apply zocc_nonneg).
+  lia.
+Qed.
+
+Lemma step_Own s e o s' : OwnI s -> step s e o = Some s' -> OwnI s'.
+Proof.
+  unfold OwnI. intros O St.
+  assert (O0 : Own [] [] [] (set_outs [] s)) by (apply Own_set_outs, O).
+  destruct e; cbn [step] in St.
+  - (* EAcquire *)
+    destruct (_ =? _)%N; inversion St; subst. unfold push.
+    eapply Own_append; [eapply Own_same; [|exact O0]; sameO_tac| | |]; intros; cbn; rewrite ?zoccP_nil, ?zocc_nil, ?zoccB_nil; lia.
+  - destruct (_ =? _)%N; inversion St; subst. unfold push.
+    eapply Own_append; [eapply Own_same; [|exact O0]; sameO_tac| | |]; intros; cbn; rewrite ?zoccP_nil, ?zocc_nil, ?zoccB_nil; lia.
+  - inversion St; subst. apply Own_release, O0.
+  - (* EConnOk *)
+    destruct (alookup cid _) as [i|] eqn:El; inversion St; subst; clear St. cbn in El.
+    destruct O as [o1 o2 o3 o4 o5 o6 o7 o8 o10 o11].
+    split; unfold limbo, npipe, push in *;
+      cbn [blocks ready infl_conn infl_disc g_open g_held next_conn next_bid set_ready set_outs set_g_conndb set_g_open set_next_conn set_infl_conn]; auto.
+    + intros j c. specialize (o1 j c). unfold kres in *. rewrite flat_map_app, zoccP_app. cbn. rewrite ?zoccP_nil in *. lia.
+    + intros c. specialize (o2 c). rewrite flat_map_app, !zocc_app in *. cbn [flat_map kont_limbo app]. rewrite !zocc_cons, !zocc_nil in *. lia.
+    + constructor; [|exact o3]. intros Hin. specialize (o4 _ Hin). lia.
+    + intros c [<-|Hin]; [lia|]. specialize (o4 _ Hin). lia.
+    + intros j. specialize (o10 j). rewrite sumK_app, (sumL_aremove _ _ _ _ El). cbn [sumK kont_pipe snd]. lia.
+  - (* EConnFail *)
+    destruct (alookup cid _) as [i|] eqn:El; inversion St; subst; clear St. cbn in El.
+    destruct O as [o1 o2 o3 o4 o5 o6 o7 o8 o10 o11].
+    split; unfold limbo, npipe, push in *;
+      cbn [blocks ready infl_conn infl_disc g_open g_held next_conn next_bid set_ready set_outs set_infl_conn]; auto.
+    + intros j c. specialize (o1 j c). unfold kres in *. rewrite flat_map_app, zoccP_app. cbn. rewrite ?zoccP_nil in *. lia.
+    + intros c. specialize (o2 c). rewrite flat_map_app, !zocc_app in *. cbn [flat_map kont_limbo app]. rewrite !zocc_nil in *. lia.
+    + intros j. specialize (o10 j). rewrite sumK_app, (sumL_aremove _ _ _ _ El). cbn [sumK kont_pipe snd]. lia.
+  - (* EDiscOk *)
+    destruct (alookup did _) as [[c a]|] eqn:El; inversion St; subst; clear St. cbn in El.
+    pose proof (Own_discs_open _ O _ _ _ El) as Hin.
+    destruct O as [o1 o2 o3 o4 o5 o6 o7 o8 o10 o11].
+    split; unfold limbo, npipe, push in *;
+      cbn [blocks ready infl_conn infl_disc g_open g_held next_conn next_bid set_ready set_outs set_g_open set_infl_disc]; auto.
+    + intros j c0. specialize (o1 j c0). unfold kres in *. rewrite flat_map_app, zoccP_app. cbn. rewrite ?zoccP_nil in *. lia.
+    + intros c0. specialize (o2 c0). rewrite flat_map_app, !zocc_app in *. cbn [flat_map kont_limbo app].
+      rewrite (zocc_aremove_snd _ _ _ _ c0 El), (zocc_remove1 _ _ c0 Hin), !zocc_nil in *. lia.
+    + apply NoDup_remove1, o3.
+    + intros c0 H0. apply o4. eapply In_remove1; eauto.
+    + intros j. specialize (o10 j). rewrite sumK_app, (sumL_aremove _ _ _ _ El). cbn [sumK kont_pipe snd]. destruct a; lia.
+  - (* EDiscFail *)
+    destruct (alookup did _) as [[c a]|] eqn:El; inversion St; subst; clear St. cbn in El.
+    pose proof (Own_discs_open _ O _ _ _ El) as Hin.
+    destruct O as [o1 o2 o3 o4 o5 o6 o7 o8 o10 o11].
+    split; unfold limbo, npipe, push in *;
+      cbn [blocks ready infl_conn infl_disc g_open g_held next_conn next_bid set_ready set_outs set_g_open set_infl_disc]; auto.
+    + intros j c0. specialize (o1 j c0). unfold kres in *. rewrite flat_map_app, zoccP_app. cbn. rewrite ?zoccP_nil in *. lia.
+    + intros c0. specialize (o2 c0). rewrite flat_map_app, !zocc_app in *. cbn [flat_map kont_limbo app].
+      rewrite (zocc_aremove_snd _ _ _ _ c0 El), (zocc_remove1 _ _ c0 Hin), !zocc_nil in *. lia.
+    + apply NoDup_remove1, o3.
+    + intros c0 H0. apply o4. eapply In_remove1; eauto.
+    + intros j. specialize (o10 j). rewrite sumK_app, (sumL_aremove _ _ _ _ El). cbn [sumK kont_pipe snd]. destruct a; lia.
+  - destruct (tick_armed _); inversion St; subst. apply Own_tick, O0.
+  - destruct (_ <? _); inversion St; subst. apply Own_run_gc, O0.
+  - (* ERun *)
+    cbn in St. destruct (ready s) as [|k r] eqn:Er; inversion St; subst; clear St.
+    pose proof (Own_pop _ _ _ O Er) as Op.
+    destruct k as [t d|t i ok|i|cid i res nodb|f c to|i c p br|did c a ok|t d|t i acc ok|t|t];
+      cbn [run_kont kont_res kont_limbo kont_promise] in *.
+    + apply Own_acquire_start, Op.
+    + apply Own_acquire_wake, Op.
+    + apply Own_call_connect, Op.
+    + destruct res as [c|]; [apply Own_connect_wake_ok|apply Own_connect_wake_fail]; exact Op.
+    + apply (Own_call_disconnect [] [] [] c (ADTransfer to)), Op.
+    + apply Own_discard_start, Op.
+    + apply Own_disconnect_wake. destruct a; exact Op.
+    + apply Own_prune_start, Op.
+    + apply Own_prune_wake. rewrite app_nil_r. exact Op.
+    + apply Own_gather_cb, Op.
+    + apply Own_emit, Op.
+Qed.
+
+Lemma Own_init mx : OwnI (init mx).
+Proof.
+  split; unfold limbo, npipe; cbn; intros; rewrite ?zoccP_nil, ?zocc_nil, ?zoccB_nil; try lia; try constructor; try tauto.
+Qed.
+
+(* ------------------------------------------------------------------ the configured maximum never changes *)
+Lemma step_maxc s e o s' : step s e o = Some s' -> s'.(maxc) = s.(maxc).
+Proof.
+  intros St.
+  assert (K0 : keepA s (set_outs [] s)) by (eapply sameA_keepA; [|apply keepA_refl]; sameA_tac).
+  destruct e; cbn [step] in St.
+  - destruct (_ =? _)%N; inversion St; subst. reflexivity.
+  - destruct (_ =? _)%N; inversion St; subst. reflexivity.
+  - inversion St; subst; clear St. unfold release.
+    destruct (find_db d _) as [b|]; [|reflexivity].
+    destruct (alookup c (b_conns b)) as [[|]|]; try reflexivity.
+    set (s1 := maybe_sched_tick _).
+    assert (K1 : keepA s s1) by (apply kA_maybe_sched_tick, kA_set_g_held, kA_upd, K0).
+    destruct (if should_free o (b_id b) s1 then maybe_free (b_id b) c s1 else (s1, false)) as [s2 moved] eqn:Em.
+    assert (K2 : keepA s s2).
+    { destruct (should_free o (b_id b) s1); [eapply kA_maybe_free; eauto|inversion Em; subst; exact K1]. }
+    destruct moved; [apply (kA_maxc _ _ K2)|].
+    destruct discard; [|apply (kA_maxc _ _ (kA_release_unused _ _ _ _ K2))].
+    pose proof (sched_new_conn_fields (b_id b) (sched_discard (b_id b) c None true s2)) as (f1 & _).
+    cbn zeta in f1. rewrite f1. cbn. apply (kA_maxc _ _ K2).
+  - destruct (alookup cid _); inversion St; subst. reflexivity.
+  - destruct (alookup cid _); inversion St; subst. reflexivity.
+  - destruct (alookup did _) as [[c a]|]; inversion St; subst. reflexivity.
+  - destruct (alookup did _) as [[c a]|]; inversion St; subst. reflexivity.
+  - destruct (tick_armed _); inversion St; subst. apply (kA_maxc _ _ (kA_tick o _ _ K0)).
+  - destruct (_ <? _); inversion St; subst. apply (kA_maxc _ _ (kA_run_gc o _ _ K0)).
+  - cbn in St. destruct (ready s) as [|k r] eqn:Er; inversion St; subst; clear St.
+    set (s0 := set_ready r (set_outs [] s)).
+    assert (R : forall x, keepA s0 x -> maxc x = maxc s) by (intros x K; rewrite (kA_maxc _ _ K); reflexivity).
+    destruct k as [t d|t i ok|i|cid i res nodb|f c to|i c p br|did c a ok|t d|t i acc ok|t|t]; cbn [run_kont].
+    + apply R, kA_acquire_start, keepA_refl.
+    + apply R, kA_acquire_wake, keepA_refl.
+    + reflexivity.
+    + destruct res as [c|]; unfold connect_wake.
+      * apply R, kA_block_release, kA_upd, keepA_refl.
+      * cbn [maxc upd set_blocks].
+        match goal with |- maxc (if ?x then _ else _) = _ => destruct x end.
+        -- rewrite (kA_maxc _ _ (kA_abort_waiters _ i _ (keepA_refl _))). reflexivity.
+        -- match goal with |- maxc (sched_new_conn ?i ?x) = _ => pose proof (sched_new_conn_fields i x) as (f1 & _) end.
+           cbn zeta in f1. rewrite f1. reflexivity.
+    + reflexivity.
+    + unfold discard_start. destruct (alookup c _) as [[|]|]; reflexivity.
+    + unfold disconnect_wake. destruct a as [to|[t|] br]; reflexivity.
+    + apply R, kA_prune_start, keepA_refl.
+    + apply R, kA_prune_wake, keepA_refl.
+    + apply R, kA_gather_cb, keepA_refl.
+    + reflexivity.
+Qed.
+
+(* ================================================================== reachable states *)
+Inductive reach (mx : Z) : pool -> Prop :=
+ | reach_init : reach mx (init mx)
+ | reach_step s e o s' : reach mx s -> step s e o = Some s' -> reach mx s'.
+
+Lemma run_reach mx : forall evs s s', reach mx s -> run s evs = Some s' -> reach mx s'.
+Proof.
+  induction evs as [|[e o] r IH]; intros s s' R E; cbn [run] in E.
+  - inversion E; subst; exact R.
+  - destruct (step s e o) as [s1|] eqn:St; [|discriminate]. eapply IH; [|exact E]. eapply reach_step; eauto.
+Qed.
+
+Definition Inv (mx : Z) (s : pool) : Prop := Inv1 s /\ OwnI s /\ s.(maxc) = mx.
+
+Lemma reach_Inv mx s : 0 <= mx -> reach mx s -> Inv mx s.
+Proof.
+  intros Hm R. induction R as [|s e o s' R IH St].
+  - split; [|split; [apply Own_init|reflexivity]].
+    split; [|intros _]; unfold InvA, InvB, opening, lag, nbroken; cbn; rewrite ?cnt_nil, ?zlen_nil; lia.
+  - destruct IH as (I1 & O & M). split; [|split].
+    + eapply step_Inv1; [apply Own_discs_open, O|exact I1|exact St].
+    + eapply step_Own; eauto.
+    + rewrite (step_maxc _ _ _ _ St). exact M.
+Qed.
+
+(* ---- C15: capacity *)
+Lemma p_capacity mx s : 0 <= mx -> reach mx s ->
+  zlen s.(g_open) - nbroken s + opening s <= mx.
+Proof.
+  intros Hm R. destruct (reach_Inv _ _ Hm R) as ((A & B) & O & M).
+  specialize (B (own_err _ _ _ _ O)). unfold InvA, InvB, lag in *. rewrite M in B.
+  assert (cnt is_bwake (ready s) <= cnt is_dwake (ready s)).
+  { apply cnt_le. intros k. destruct k; cbn; congruence. }
+  pose proof (cnt_nonneg is_cfail (ready s)). lia.
+Qed.
+
+(* ---- C15: the reported usage *)
+Lemma p_usage mx s : 0 <= mx -> reach mx s -> s.(cur) = zlen s.(g_open) + opening s + lag s.
+Proof. intros Hm R. destruct (reach_Inv _ _ Hm R) as ((A & _) & _). exact A. Qed.
+Lemma p_usage_quiescent mx s : 0 <= mx -> reach mx s -> s.(ready) = [] ->
+  s.(cur) = zlen s.(g_open) + zlen s.(infl_conn).
+Proof.
+  intros Hm R E. rewrite (p_usage _ _ Hm R). unfold opening, lag. rewrite E, !cnt_nil. lia.
+Qed.
+
+(* ---- C15: no assertion of the pool about the state of a connection ever fires *)
+Lemma p_no_assert mx s : 0 <= mx -> reach mx s -> s.(err) = false.
+Proof. intros Hm R. destruct (reach_Inv _ _ Hm R) as (_ & O & _). exact (own_err _ _ _ _ O). Qed.
+
+(* ---- per-block consequences of the ownership invariant *)
+Lemma own_block_facts s b c : OwnI s -> In b s.(blocks) ->
+  zocc c b.(b_stack) + zocc c (inuse_keys b) + zocc c (wres b) <= zocc c (keys b) /\
+  zocc c (keys b) + zocc c (limbo s) <= zocc c s.(g_open) /\ zocc c s.(g_open) <= 1.
+Proof.
+  intros O Hb.
+  pose proof (own_blk _ _ _ _ O (b_id b) c) as B.
+  rewrite (sumZ_at_unique (b_id b) (slack c) _ b (own_ids _ _ _ _ O) Hb eq_refl), zoccP_nil, slack_unfold in B.
+  pose proof (zoccP_nonneg (b_id b, c) (kres (ready s))).
+  pose proof (own_open _ _ _ _ O c) as Op. rewrite zocc_nil in Op.
+  pose proof (sumZ_In_le (fun b => zocc c (keys b)) (blocks s) b (fun b _ => zocc_nonneg c _) Hb) as K. cbn beta in K.
+  assert (G1 : zocc c (g_open s) <= 1)
+    by (unfold zocc; pose proof (proj1 (occ_NoDup Ndec _) (own_nodup _ _ _ _ O) c); lia).
+  pose proof (zocc_nonneg c (limbo s)). repeat split; lia.
+Qed.
+
+Lemma zocc_NoDup l : (forall c, zocc c l <= 1) -> NoDup l.
+Proof. intros H. apply (occ_NoDup Ndec). intros x. specialize (H x). unfold zocc in H. lia. Qed.
+Lemma zocc_notin c l : zocc c l = 0 -> ~ In c l.
+Proof. intros H Hin. apply zocc_In in Hin. lia. Qed.
+
+(* ---- C15: the idle stack *)
+Lemma p_stack_sound mx s b : 0 <= mx -> reach mx s -> In b s.(blocks) ->
+  NoDup b.(b_stack) /\
+  forall c, In c b.(b_stack) -> alookup c b.(b_conns) = Some false /\ In c s.(g_open) /\ ~ In c (limbo s).
+Proof.
+  intros Hm R Hb. destruct (reach_Inv _ _ Hm R) as (_ & O & _). split.
+  - apply zocc_NoDup. intros c. destruct (own_block_facts s b c O Hb) as (F1 & F2 & F3).
+    pose proof (zocc_nonneg c (inuse_keys b)). pose proof (zocc_nonneg c (wres b)). pose proof (zocc_nonneg c (limbo s)). lia.
+  - intros c Hc. apply zocc_In in Hc. destruct (own_block_facts s b c O Hb) as (F1 & F2 & F3).
+    pose proof (zocc_nonneg c (inuse_keys b)). pose proof (zocc_nonneg c (wres b)). pose proof (zocc_nonneg c (limbo s)).
+    repeat split.
+    + apply alookup_keys; unfold keys, inuse_keys, zocc in *; lia.
+    + apply zocc_In. lia.
+    + apply zocc_notin. lia.
+Qed.
+
+(* ---- C15: a connection is lent to at most one holder, is open and in_use in exactly one block,
+        not on any stack, not being closed *)
+Lemma inuse_lookup c cs : 1 <= zocc c (inuse_l cs) -> zocc c (map fst cs) <= 1 -> alookup c cs = Some true.
+Proof.
+  induction cs as [|[k v] cs IH]; unfold inuse_l; cbn [filter snd map fst alookup]; [rewrite zocc_nil; lia|].
+  destruct (c =? k)%N eqn:E.
+  - apply N.eqb_eq in E; subst. rewrite zocc_cons. destruct (Ndec k k); [|contradiction].
+    destruct v; [reflexivity|]. intros H1 H2.
+    assert (1 <= zocc k (map fst cs)).
+    { clear -H1. induction cs as [|[k' v'] cs IH]; cbn [filter snd map fst] in *; [rewrite zocc_nil in H1; lia|].
+      rewrite zocc_cons. destruct v'; cbn [map fst] in H1; [rewrite zocc_cons in H1; destruct (Ndec k' k); lia|].
+      specialize (IH H1). destruct (Ndec k' k); lia. }
+    lia.
+  - apply N.eqb_neq in E. rewrite zocc_cons. destruct (Ndec k c); [subst; contradiction|].
+    intros H1 H2. apply IH; [|lia]. destruct v; cbn [map fst] in H1; [rewrite zocc_cons in H1; destruct (Ndec k c); [contradiction|]|]; exact H1 || lia.
+Qed.
+
+Lemma sumZ_pos_In w bs : (forall b, In b bs -> 0 <= w b) -> 1 <= sumZ w bs -> exists b, In b bs /\ 1 <= w b.
+Proof.
+  induction bs as [|b r IH]; cbn [sumZ]; intros Hn H; [lia|].
+  destruct (Z_le_gt_dec 1 (w b)) as [L|G]; [exists b; split; [left; reflexivity|exact L]|].
+  pose proof (Hn b (or_introl eq_refl)).
+  destruct IH as (b' & Hb' & Hw); [intros; apply Hn; right; assumption|lia|].
+  exists b'. split; [right|]; assumption.
+Qed.
+
+Lemma p_single_lender mx s : 0 <= mx -> reach mx s ->
+  NoDup (map fst s.(g_held)) /\
+  forall c t d, In (c, (t, d)) s.(g_held) ->
+    In c s.(g_open) /\ ~ In c (limbo s) /\
+    exists b, In b s.(blocks) /\ alookup c b.(b_conns) = Some true /\ ~ In c b.(b_stack) /\
+              forall b', In b' s.(blocks) -> In c (keys b') -> b' = b.
+Proof.
+  intros Hm R. destruct (reach_Inv _ _ Hm R) as (_ & O & _).
+  assert (KS : forall c, sumZ (fun b => zocc c (keys b)) (blocks s) + zocc c (limbo s) <= zocc c (g_open s) /\ zocc c (g_open s) <= 1).
+  { intros c. pose proof (own_open _ _ _ _ O c) as Op. rewrite zocc_nil in Op. split; [lia|].
+    unfold zocc; pose proof (proj1 (occ_NoDup Ndec _) (own_nodup _ _ _ _ O) c); lia. }
+  assert (IK : forall c, sumZ (fun b => zocc c (inuse_keys b)) (blocks s) <= sumZ (fun b => zocc c (keys b)) (blocks s)).
+  { intros c. induction (blocks s) as [|b r IH]; cbn [sumZ]; [lia|].
+    assert (zocc c (inuse_keys b) <= zocc c (keys b)); [|lia].
+    unfold inuse_keys, keys, inuse_l. induction (b_conns b) as [|[k v] cs IHc]; cbn [filter snd map fst]; [lia|].
+    destruct v; cbn [map fst]; rewrite ?zocc_cons; destruct (Ndec k c); lia. }
+  split.
+  - apply zocc_NoDup. intros c. rewrite (own_held _ _ _ _ O c). destruct (KS c). specialize (IK c).
+    pose proof (zocc_nonneg c (limbo s)). lia.
+  - intros c t d Hin.
+    assert (H1 : 1 <= zocc c (map fst (g_held s))) by (apply zocc_In; apply (in_map fst) in Hin; exact Hin).
+    rewrite (own_held _ _ _ _ O c) in H1.
+    destruct (sumZ_pos_In _ _ (fun b _ => zocc_nonneg c (inuse_keys b)) H1) as (b & Hb & Hw).
+    destruct (own_block_facts s b c O Hb) as (F1 & F2 & F3).
+    destruct (KS c) as [K1 K2]. specialize (IK c).
+    pose proof (zocc_nonneg c (limbo s)). pose proof (zocc_nonneg c (b_stack b)). pose proof (zocc_nonneg c (wres b)).
+    repeat split.
+    + apply zocc_In. lia.
+    + apply zocc_notin. lia.
+    + exists b. repeat split; [exact Hb| | |].
+      * apply inuse_lookup; [exact Hw|unfold keys in *; lia].
+      * apply zocc_notin. lia.
+      * intros b' Hb' Hk. apply zocc_In in Hk.
+        destruct (in_dec (fun x y : blk => bdec (b_id x) (b_id y)) b' [b]) as [_|_]. all: try idtac.
+        assert (ND := own_ids _ _ _ _ O).
+        (* two different blocks both holding c would count it twice *)
+        clear -Hb Hb' Hk F1 F2 Hw K1 K2 ND.
+        pose proof (zocc_nonneg c (limbo s)).
+        induction (blocks s) as [|b0 r IH]; [destruct Hb|].
+        cbn [sumZ map] in *. inversion ND; subst.
+        assert (Hn : 0 <= sumZ (fun b => zocc c (keys b)) r) by (apply sumZ_nonneg; intros; apply zocc_nonneg).
+        destruct Hb as [->|Hb], Hb' as [->|Hb']; auto.
+        -- pose proof (sumZ_In_le (fun b => zocc c (keys b)) r b' (fun b _ => zocc_nonneg c _) Hb'). cbn beta in *. lia.
+        -- pose proof (sumZ_In_le (fun b => zocc c (keys b)) r b (fun b _ => zocc_nonneg c _) Hb). cbn beta in *. lia.
+        -- apply IH; auto. pose proof (zocc_nonneg c (keys b0)). lia.
 Qed.
